@@ -1,9 +1,1403 @@
-(* PART D — the machine theorems *)
+(* MachineRefine.v — refinement theorems for the unbuffered machine (Machine.v):
+   M2 mutator_writes_through, in_lop/in_dop_refines_plain, M3 step_refines_plain (CHANGED, see there),
+   M4 root_clear_reset, M5 read_keeps_handles, M6 touch_is_noop.
+   Parts: A ids under upd (upd_ids_r) · B list/dict bodies vs. plain ops · C handles as paths ·
+          D arguments and update() · E the machine theorems. *)
 From Coq Require Import List ZArith NArith Bool Lia Arith.
 From SC Require Import Model.Val Model.Plain Model.Ops Model.Valid Model.Class Model.Tree Model.Machine.
 From SC Require Import Proofs.TreeDefs Proofs.TreeLemmas Proofs.MachineDefs.
-From SC Require Import Proofs.MRIds Proofs.MROps Proofs.MRPath Proofs.MRUpd.
 Import ListNotations.
+
+
+(* ====================================================================== *)
+(* PART A *)
+(* ====================================================================== *)
+(* MRIds.v — the in-place merge `upd` keeps node identities unique and below
+   the fresh-id supply: every id of the result is an old id of the same node or
+   a fresh one drawn from [nx, nx').  Holds for ANY data, also on error. *)
+
+(* ------------------------------------------------------------------ *)
+(* vocabulary                                                          *)
+(* ------------------------------------------------------------------ *)
+
+Definition lids (l : list node) : list nat := flat_map node_ids l.
+Definition dids (d : list (key * node)) : list nat :=
+  flat_map (fun kn : key * node => node_ids (snd kn)) d.
+
+Definition ids_step (u : node -> nat -> node * nat * option err) : Prop :=
+  forall ex nx ex' nx' e, u ex nx = (ex', nx', e) ->
+    (forall i, In i (node_ids ex) -> i < nx) -> NoDup (node_ids ex) ->
+    NoDup (node_ids ex') /\ (forall i, In i (node_ids ex') -> In i (node_ids ex) \/ nx <= i < nx') /\ nx <= nx'.
+
+Lemma lids_cons n l : lids (n :: l) = node_ids n ++ lids l.
+Proof. reflexivity. Qed.
+
+Lemma dids_cons k n d : dids ((k, n) :: d) = node_ids n ++ dids d.
+Proof. reflexivity. Qed.
+
+Lemma node_ids_NL id c l : node_ids (NL id c l) = id :: lids l.
+Proof. reflexivity. Qed.
+
+Lemma node_ids_ND id c d : node_ids (ND id c d) = id :: dids d.
+Proof. reflexivity. Qed.
+
+(* ------------------------------------------------------------------ *)
+(* small list facts                                                    *)
+(* ------------------------------------------------------------------ *)
+
+Lemma NoDup_app_inv' {A} (l1 l2 : list A) :
+  NoDup (l1 ++ l2) -> NoDup l1 /\ NoDup l2 /\ (forall x, In x l1 -> ~ In x l2).
+Proof.
+  induction l1 as [|a l1 IH]; simpl; intros H.
+  - split; [constructor|]. split; [exact H|]. intros x [].
+  - inversion H as [|a' l' Hnin Hnd]; subst. destruct (IH Hnd) as [H1 [H2 H3]].
+    split.
+    + constructor; [|exact H1]. intros Hin. apply Hnin. apply in_or_app. left; exact Hin.
+    + split; [exact H2|]. intros x [Hx|Hx] Hx2.
+      * subst x. apply Hnin. apply in_or_app. right; exact Hx2.
+      * apply (H3 x Hx Hx2).
+Qed.
+
+Lemma dids_In k n d i : In (k, n) d -> In i (node_ids n) -> In i (dids d).
+Proof.
+  intros Hin Hi. unfold dids. apply in_flat_map. exists (k, n). split; [exact Hin|exact Hi].
+Qed.
+
+Lemma dids_NoDup_In k n d : In (k, n) d -> NoDup (dids d) -> NoDup (node_ids n).
+Proof.
+  induction d as [|[k' v'] d IH]; simpl; intros Hin Hnd.
+  - contradiction.
+  - change (NoDup (node_ids v' ++ dids d)) in Hnd.
+    apply NoDup_app_inv' in Hnd. destruct Hnd as [H1 [H2 _]].
+    destruct Hin as [Hin|Hin].
+    + inversion Hin; subst. exact H1.
+    + apply IH; assumption.
+Qed.
+
+Lemma dids_filter (f : key * node -> bool) d :
+  NoDup (dids d) ->
+  NoDup (dids (filter f d)) /\ (forall i, In i (dids (filter f d)) -> In i (dids d)).
+Proof.
+  induction d as [|[k v] d IH]; intros Hnd.
+  - simpl. split; [constructor|]. intros i [].
+  - rewrite dids_cons in Hnd.
+    apply NoDup_app_inv' in Hnd. destruct Hnd as [H1 [H2 H3]].
+    destruct (IH H2) as [I1 I2].
+    simpl filter. destruct (f (k, v)).
+    + rewrite !dids_cons. split.
+      * apply NoDup_app'; [exact H1|exact I1|].
+        intros x Hx Hx2. apply (H3 x Hx). apply I2. exact Hx2.
+      * intros i Hi. apply in_app_or in Hi. apply in_or_app.
+        destruct Hi as [Hi|Hi]; [left; exact Hi|right; apply I2; exact Hi].
+    + rewrite dids_cons. split; [exact I1|].
+      intros i Hi. apply in_or_app. right. apply I2. exact Hi.
+Qed.
+
+(* ------------------------------------------------------------------ *)
+(* dict_set                                                            *)
+(* ------------------------------------------------------------------ *)
+
+Lemma dict_set_ids d k n nx nx1 :
+  NoDup (dids d) -> (forall i, In i (dids d) -> i < nx) -> NoDup (node_ids n) ->
+  (forall i, In i (node_ids n) ->
+     (exists ex, alookup k d = Some ex /\ In i (node_ids ex)) \/ nx <= i < nx1) ->
+  NoDup (dids (dict_set d k n))
+  /\ (forall i, In i (dids (dict_set d k n)) -> In i (dids d) \/ nx <= i < nx1).
+Proof.
+  induction d as [|[k' v'] d IH]; intros Hnd Hlt Hn Hsrc.
+  - simpl dict_set. rewrite dids_cons. simpl. rewrite app_nil_r. split; [exact Hn|].
+    intros i Hi. destruct (Hsrc i Hi) as [[ex [E _]]|Hf].
+    + simpl in E. discriminate.
+    + right; exact Hf.
+  - rewrite dids_cons in Hnd, Hlt.
+    destruct (NoDup_app_inv' _ _ Hnd) as [H1 [H2 H3]].
+    simpl dict_set. simpl alookup in Hsrc. destruct (key_eqb k k') eqn:E.
+    + rewrite !dids_cons. split.
+      * apply NoDup_app'; [exact Hn|exact H2|].
+        intros x Hx Hx2. destruct (Hsrc x Hx) as [[ex [Eex Hin]]|Hf].
+        -- inversion Eex; subst ex. apply (H3 x Hin Hx2).
+        -- assert (x < nx) by (apply Hlt; apply in_or_app; right; exact Hx2). lia.
+      * intros i Hi. apply in_app_or in Hi. destruct Hi as [Hi|Hi].
+        -- destruct (Hsrc i Hi) as [[ex [Eex Hin]]|Hf].
+           ++ inversion Eex; subst ex. left. apply in_or_app. left; exact Hin.
+           ++ right; exact Hf.
+        -- left. apply in_or_app. right; exact Hi.
+    + assert (Hlt2 : forall i, In i (dids d) -> i < nx).
+      { intros i Hi. apply Hlt. apply in_or_app. right; exact Hi. }
+      destruct (IH H2 Hlt2 Hn Hsrc) as [I1 I2].
+      rewrite !dids_cons. split.
+      * apply NoDup_app'; [exact H1|exact I1|].
+        intros x Hx Hx2. destruct (I2 x Hx2) as [Hin|Hf].
+        -- apply (H3 x Hx Hin).
+        -- assert (x < nx) by (apply Hlt; apply in_or_app; left; exact Hx). lia.
+      * intros i Hi. apply in_app_or in Hi. destruct Hi as [Hi|Hi].
+        -- left. apply in_or_app. left; exact Hi.
+        -- destruct (I2 i Hi) as [Hin|Hf].
+           ++ left. apply in_or_app. right; exact Hin.
+           ++ right; exact Hf.
+Qed.
+
+(* ------------------------------------------------------------------ *)
+(* merge_one / upd_prefix / upd_entries, parameterised by the          *)
+(* recursive function                                                  *)
+(* ------------------------------------------------------------------ *)
+
+Section UpdIds.
+  Variable T : class_table.
+
+  (* the `replace` branch of merge_one: ex0 is what is kept if validation fails *)
+  Lemma replace_ids c wrapped nv (old : list nat) ex0 nx nx0 n nx1 e :
+    nx <= nx0 -> NoDup (node_ids ex0) ->
+    (forall i, In i (node_ids ex0) -> In i old \/ nx <= i < nx0) ->
+    match validate (validators_of T c) wrapped with
+    | Some e => (ex0, nx0, Some e)
+    | None => let (n, nx1) := from_base T c nv nx0 in (n, nx1, None)
+    end = (n, nx1, e) ->
+    NoDup (node_ids n) /\ (forall i, In i (node_ids n) -> In i old \/ nx <= i < nx1) /\ nx <= nx1.
+  Proof.
+    intros Hle Hnd Hsrc H. destruct (validate (validators_of T c) wrapped) as [e0|].
+    - inversion H; subst. split; [exact Hnd|]. split; [exact Hsrc|exact Hle].
+    - pose proof (from_base_fresh T c nv nx0) as F.
+      destruct (from_base T c nv nx0) as [n0 nx2]. simpl in F.
+      inversion H; subst. destruct F as [F1 [F2 F3]].
+      split; [exact F3|]. split; [|lia].
+      intros i Hi. right. apply F2 in Hi. lia.
+  Qed.
+
+  Lemma merge_one_ids u c wrapped nv :
+    ids_step (u nv) -> ids_step (merge_one T u c wrapped nv).
+  Proof.
+    intros Hu ex nx n nx1 e H Hlt Hnd. unfold merge_one in H. cbv beta zeta in H.
+    destruct (skip_same nv ex).
+    { inversion H; subst. split; [exact Hnd|]. split; [|lia]. intros i Hi; left; exact Hi. }
+    destruct (node_is_container ex && negb (is_null nv)).
+    - destruct (u nv ex nx) as [[ex' nx'] [e'|]] eqn:E.
+      + destruct (Hu _ _ _ _ _ E Hlt Hnd) as [U1 [U2 U3]].
+        destruct (err_is_value_error e').
+        * eapply replace_ids; [exact U3|exact U1|exact U2|exact H].
+        * inversion H; subst. split; [exact U1|]. split; [exact U2|exact U3].
+      + inversion H; subst. exact (Hu _ _ _ _ _ E Hlt Hnd).
+    - eapply replace_ids; [apply Nat.le_refl|exact Hnd| |exact H].
+      intros i Hi; left; exact Hi.
+  Qed.
+
+  Lemma upd_prefix_ids u c dl :
+    Forall (fun nv => ids_step (u nv)) dl ->
+    forall l nx l' nx' e, upd_prefix T u c dl l nx = (l', nx', e) ->
+      (forall i, In i (lids l) -> i < nx) -> NoDup (lids l) ->
+      NoDup (lids l') /\ (forall i, In i (lids l') -> In i (lids l) \/ nx <= i < nx') /\ nx <= nx'.
+  Proof.
+    intros HF. induction HF as [|nv dl Hnv HF IH]; intros l nx l' nx' e H Hlt Hnd.
+    - rewrite upd_prefix_nil in H. inversion H; subst.
+      split; [constructor|]. split; [intros i []|lia].
+    - destruct l as [|ex l].
+      + rewrite upd_prefix_cons_nil in H.
+        destruct (validate (validators_of T c) (VL (nv :: dl))) as [e0|].
+        * inversion H; subst. split; [constructor|]. split; [intros i []|lia].
+        * destruct (map_st (from_base T c) (nv :: dl) nx) as [tl nx1] eqn:E2.
+          inversion H; subst. apply map_st_rel_intro in E2.
+          destruct (map_st_rel_fresh _ node_ids _ _ _ _ E2) as [G1 [G2 G3]].
+          { apply Forall_forall. intros a _ s. apply from_base_fresh. }
+          split; [exact G3|]. split; [|exact G1].
+          intros i Hi. right. apply G2. exact Hi.
+      + rewrite upd_prefix_cons_cons in H. rewrite lids_cons in Hlt, Hnd.
+        destruct (NoDup_app_inv' _ _ Hnd) as [H1 [H2 H3]].
+        assert (Hlt1 : forall i, In i (node_ids ex) -> i < nx).
+        { intros i Hi. apply Hlt. apply in_or_app. left; exact Hi. }
+        assert (Hlt2 : forall i, In i (lids l) -> i < nx).
+        { intros i Hi. apply Hlt. apply in_or_app. right; exact Hi. }
+        destruct (merge_one T u c nv nv ex nx) as [[n nx1] [e1|]] eqn:E.
+        * inversion H; subst.
+          destruct (merge_one_ids u c nv nv Hnv _ _ _ _ _ E Hlt1 H1) as [M1 [M2 M3]].
+          rewrite !lids_cons. split.
+          -- apply NoDup_app'; [exact M1|exact H2|].
+             intros x Hx Hx2. destruct (M2 x Hx) as [Hin|Hf].
+             ++ apply (H3 x Hin Hx2).
+             ++ apply Hlt2 in Hx2. lia.
+          -- split; [|exact M3]. intros i Hi. apply in_app_or in Hi. destruct Hi as [Hi|Hi].
+             ++ destruct (M2 i Hi) as [Hin|Hf].
+                ** left. apply in_or_app. left; exact Hin.
+                ** right; exact Hf.
+             ++ left. apply in_or_app. right; exact Hi.
+        * destruct (upd_prefix T u c dl l nx1) as [[l2 nx2] e2] eqn:E2.
+          inversion H; subst.
+          destruct (merge_one_ids u c nv nv Hnv _ _ _ _ _ E Hlt1 H1) as [M1 [M2 M3]].
+          assert (Hlt3 : forall i, In i (lids l) -> i < nx1).
+          { intros i Hi. apply Hlt2 in Hi. lia. }
+          destruct (IH _ _ _ _ _ E2 Hlt3 H2) as [I1 [I2 I3]].
+          rewrite !lids_cons. split.
+          -- apply NoDup_app'; [exact M1|exact I1|].
+             intros x Hx Hx2. destruct (M2 x Hx) as [Hin|Hf]; destruct (I2 x Hx2) as [Hin2|Hf2].
+             ++ apply (H3 x Hin Hin2).
+             ++ apply Hlt1 in Hin. lia.
+             ++ apply Hlt2 in Hin2. lia.
+             ++ lia.
+          -- split; [|lia]. intros i Hi. apply in_app_or in Hi. destruct Hi as [Hi|Hi].
+             ++ destruct (M2 i Hi) as [Hin|Hf].
+                ** left. apply in_or_app. left; exact Hin.
+                ** right; lia.
+             ++ destruct (I2 i Hi) as [Hin|Hf].
+                ** left. apply in_or_app. right; exact Hin.
+                ** right; lia.
+  Qed.
+
+  Lemma upd_entries_ids u c dd :
+    Forall (fun kv : key * val => ids_step (u (snd kv))) dd ->
+    forall d nx d' nx' e, upd_entries T u c dd d nx = (d', nx', e) ->
+      (forall i, In i (dids d) -> i < nx) -> NoDup (dids d) ->
+      NoDup (dids d') /\ (forall i, In i (dids d') -> In i (dids d) \/ nx <= i < nx') /\ nx <= nx'.
+  Proof.
+    intros HF. induction HF as [|[k nv] dd Hnv HF IH]; intros d nx d' nx' e H Hlt Hnd.
+    - rewrite upd_entries_nil in H. inversion H; subst.
+      split; [exact Hnd|]. split; [|lia]. intros i Hi; left; exact Hi.
+    - rewrite upd_entries_cons in H. simpl in Hnv.
+      (* one step: the node n stored under k and the supply nx1 after it *)
+      assert (Step : forall n nx1,
+                 nx <= nx1 -> NoDup (node_ids n) ->
+                 (forall i, In i (node_ids n) ->
+                    (exists ex, alookup k d = Some ex /\ In i (node_ids ex)) \/ nx <= i < nx1) ->
+                 NoDup (dids (dict_set d k n))
+                 /\ (forall i, In i (dids (dict_set d k n)) -> In i (dids d) \/ nx <= i < nx1)
+                 /\ (forall i, In i (dids (dict_set d k n)) -> i < nx1)).
+      { intros n nx1 Hle Hn Hsrc.
+        destruct (dict_set_ids d k n nx nx1 Hnd Hlt Hn Hsrc) as [D1 D2].
+        split; [exact D1|]. split; [exact D2|].
+        intros i Hi. destruct (D2 i Hi) as [Hin|Hf]; [apply Hlt in Hin; lia|lia]. }
+      destruct (alookup k d) as [ex|] eqn:Ek.
+      + pose proof (alookup_In _ _ _ Ek) as Hin.
+        assert (Hltex : forall i, In i (node_ids ex) -> i < nx).
+        { intros i Hi. apply Hlt. eapply dids_In; eauto. }
+        pose proof (dids_NoDup_In _ _ _ Hin Hnd) as Hndex.
+        destruct (merge_one T u c (VD [(k, nv)]) nv ex nx) as [[n nx1] e1] eqn:E.
+        destruct (merge_one_ids u c (VD [(k, nv)]) nv Hnv _ _ _ _ _ E Hltex Hndex) as [M1 [M2 M3]].
+        destruct (Step n nx1 M3 M1) as [D1 [D2 D3]].
+        { intros i Hi. destruct (M2 i Hi) as [Hi2|Hf]; [left; eauto|right; exact Hf]. }
+        destruct e1 as [e1|].
+        * inversion H; subst. split; [exact D1|]. split; [exact D2|exact M3].
+        * destruct (IH _ _ _ _ _ H D3 D1) as [I1 [I2 I3]].
+          split; [exact I1|]. split; [|lia].
+          intros i Hi. destruct (I2 i Hi) as [Hi2|Hf].
+          -- destruct (D2 i Hi2) as [Hi3|Hf]; [left; exact Hi3|right; lia].
+          -- right; lia.
+      + destruct (validate (validators_of T c) (VD [(k, nv)])) as [e0|].
+        * inversion H; subst. split; [exact Hnd|]. split; [|lia]. intros i Hi; left; exact Hi.
+        * pose proof (from_base_fresh T c nv nx) as F.
+          destruct (from_base T c nv nx) as [n nx1]. simpl in F. destruct F as [F1 [F2 F3]].
+          destruct (Step n nx1 F1 F3) as [D1 [D2 D3]].
+          { intros i Hi. right. apply F2. exact Hi. }
+          destruct (IH _ _ _ _ _ H D3 D1) as [I1 [I2 I3]].
+          split; [exact I1|]. split; [|lia].
+          intros i Hi. destruct (I2 i Hi) as [Hi2|Hf].
+          -- destruct (D2 i Hi2) as [Hi3|Hf]; [left; exact Hi3|right; lia].
+          -- right; lia.
+  Qed.
+
+  Lemma upd_ids_all data : ids_step (upd T data).
+  Proof.
+    assert (Same : forall (ex : node) (nx : nat) ex' nx' (e : option err),
+               (ex, nx, Some EValue) = (ex', nx', e) ->
+               NoDup (node_ids ex) ->
+               NoDup (node_ids ex')
+               /\ (forall i, In i (node_ids ex') -> In i (node_ids ex) \/ nx <= i < nx') /\ nx <= nx').
+    { intros ex nx ex' nx' e H Hnd. inversion H; subst.
+      split; [exact Hnd|]. split; [|lia]. intros i Hi; left; exact Hi. }
+    induction data as [s|dl IH|dd IH] using val_ind2; intros ex nx ex' nx' e H Hlt Hnd.
+    - rewrite upd_mismatch in H.
+      + eapply Same; eauto.
+      + destruct ex; simpl; auto; left; discriminate.
+    - destruct ex as [v|id c l|id c d].
+      + rewrite upd_mismatch in H; [|right; reflexivity]. eapply Same; eauto.
+      + rewrite upd_NL_VL in H.
+        destruct (upd_prefix T (fun v => upd T v) c dl l nx) as [[l' nx2] e2] eqn:E.
+        inversion H; subst. rewrite node_ids_NL in *.
+        inversion Hnd as [|a l0 Hnin Hnd2]; subst.
+        assert (Hlt2 : forall i, In i (lids l) -> i < nx).
+        { intros i Hi. apply Hlt. right; exact Hi. }
+        destruct (upd_prefix_ids (fun v => upd T v) c dl IH _ _ _ _ _ E Hlt2 Hnd2) as [P1 [P2 P3]].
+        split.
+        * constructor; [|exact P1]. intros Hin. destruct (P2 id Hin) as [Hi|Hf].
+          -- contradiction.
+          -- assert (id < nx) by (apply Hlt; left; reflexivity). lia.
+        * split; [|exact P3]. intros i [Hi|Hi].
+          -- left; left; exact Hi.
+          -- destruct (P2 i Hi) as [Hi2|Hf]; [left; right; exact Hi2|right; exact Hf].
+      + rewrite upd_mismatch in H; [|left; discriminate]. eapply Same; eauto.
+    - destruct ex as [v|id c l|id c d].
+      + rewrite upd_mismatch in H; [|right; reflexivity]. eapply Same; eauto.
+      + rewrite upd_mismatch in H; [|left; discriminate]. eapply Same; eauto.
+      + rewrite upd_ND_VD in H.
+        destruct (upd_entries T (fun v => upd T v) c dd d nx) as [[d' nx2] e2] eqn:E.
+        rewrite node_ids_ND in Hlt, Hnd.
+        inversion Hnd as [|a l0 Hnin Hnd2]; subst.
+        assert (Hlt2 : forall i, In i (dids d) -> i < nx).
+        { intros i Hi. apply Hlt. right; exact Hi. }
+        destruct (upd_entries_ids (fun v => upd T v) c dd IH _ _ _ _ _ E Hlt2 Hnd2) as [P1 [P2 P3]].
+        assert (Hid : id < nx) by (apply Hlt; left; reflexivity).
+        destruct e2 as [e2|]; inversion H; subst; rewrite !node_ids_ND.
+        * split.
+          -- constructor; [|exact P1]. intros Hin. destruct (P2 id Hin) as [Hi|Hf]; [contradiction|lia].
+          -- split; [|exact P3]. intros i [Hi|Hi].
+             ++ left; left; exact Hi.
+             ++ destruct (P2 i Hi) as [Hi2|Hf]; [left; right; exact Hi2|right; exact Hf].
+        * unfold keep_keys.
+          destruct (dids_filter
+                      (fun kn : key * node => match alookup (fst kn) dd with Some _ => true | None => false end)
+                      d' P1) as [K1 K2].
+          split.
+          -- constructor; [|exact K1]. intros Hin. apply K2 in Hin.
+             destruct (P2 id Hin) as [Hi|Hf]; [contradiction|lia].
+          -- split; [|exact P3]. intros i [Hi|Hi].
+             ++ left; left; exact Hi.
+             ++ apply K2 in Hi.
+                destruct (P2 i Hi) as [Hi2|Hf]; [left; right; exact Hi2|right; exact Hf].
+  Qed.
+End UpdIds.
+
+(* ------------------------------------------------------------------ *)
+(* main theorem                                                        *)
+(* ------------------------------------------------------------------ *)
+
+Theorem upd_ids_r T data n nx n' nx' e :
+  upd T data n nx = (n', nx', e) ->
+  (forall i, In i (node_ids n) -> i < nx) -> NoDup (node_ids n) ->
+  NoDup (node_ids n') /\ (forall i, In i (node_ids n') -> i < nx') /\ nx <= nx'.
+Proof.
+  intros H Hlt Hnd.
+  destruct (upd_ids_all T data _ _ _ _ _ H Hlt Hnd) as [A1 [A2 A3]].
+  split; [exact A1|]. split; [|exact A3].
+  intros i Hi. destruct (A2 i Hi) as [Hin|Hf].
+  - apply Hlt in Hin. lia.
+  - lia.
+Qed.
+
+(* ====================================================================== *)
+(* PART B *)
+(* ====================================================================== *)
+(* MROps.v — the body of every list / dict operation on a tree node is the
+   built-in operation on the plain view ([to_base]).  One commutation lemma per
+   generic operation of Plain.v ("op on [map f l] = map f of op on [l]"), then
+   the two refinement theorems for [in_lop] / [in_dop]. *)
+
+(* ------------------------------------------------------------------ *)
+(* results                                                             *)
+(* ------------------------------------------------------------------ *)
+
+Definition rmap {A B} (g : A -> B) (r : res A) : res B :=
+  match r with Ok a => Ok (g a) | Err e => Err e end.
+
+(* ------------------------------------------------------------------ *)
+(* generic list operations commute with map                            *)
+(* ------------------------------------------------------------------ *)
+
+Section ListMap.
+  Context {A B : Type}.
+  Variable f : A -> B.
+
+  Lemma zlen_map (l : list A) : zlen (map f l) = zlen l.
+  Proof. unfold zlen. rewrite map_length. reflexivity. Qed.
+
+  Lemma list_get_map (l : list A) i : list_get (map f l) i = rmap f (list_get l i).
+  Proof.
+    unfold list_get. rewrite zlen_map.
+    destruct (norm_idx (zlen l) i) as [j|]; [|reflexivity].
+    rewrite nth_error_map. destruct (nth_error l j); reflexivity.
+  Qed.
+
+  Lemma set_nth_map (l : list A) j x : set_nth (map f l) j (f x) = map f (set_nth l j x).
+  Proof.
+    revert j. induction l as [|h t IH]; intros j; cbn [map set_nth].
+    - destruct j; reflexivity.
+    - destruct j as [|j]; cbn [map]; [reflexivity|]. rewrite IH. reflexivity.
+  Qed.
+
+  Lemma del_nth_map (l : list A) j : del_nth (map f l) j = map f (del_nth l j).
+  Proof.
+    revert j. induction l as [|h t IH]; intros j; cbn [map del_nth].
+    - destruct j; reflexivity.
+    - destruct j as [|j]; cbn [map]; [reflexivity|]. rewrite IH. reflexivity.
+  Qed.
+
+  Lemma list_set_map (l : list A) i x :
+    list_set (map f l) i (f x) = rmap (map f) (list_set l i x).
+  Proof.
+    unfold list_set. rewrite zlen_map.
+    destruct (norm_idx (zlen l) i) as [j|]; cbn [rmap]; [|reflexivity].
+    rewrite set_nth_map. reflexivity.
+  Qed.
+
+  Lemma list_del_map (l : list A) i : list_del (map f l) i = rmap (map f) (list_del l i).
+  Proof.
+    unfold list_del. rewrite zlen_map.
+    destruct (norm_idx (zlen l) i) as [j|]; cbn [rmap]; [|reflexivity].
+    rewrite del_nth_map. reflexivity.
+  Qed.
+
+  Lemma list_insert_map (l : list A) i x :
+    list_insert (map f l) i (f x) = map f (list_insert l i x).
+  Proof.
+    unfold list_insert. rewrite zlen_map, map_app, firstn_map. cbn [map].
+    rewrite skipn_map. reflexivity.
+  Qed.
+
+  Lemma list_pop_map (l : list A) i :
+    list_pop (map f l) i = rmap (fun p : A * list A => (f (fst p), map f (snd p))) (list_pop l i).
+  Proof.
+    unfold list_pop. rewrite zlen_map.
+    destruct (norm_idx (zlen l) i) as [j|]; [|reflexivity].
+    rewrite nth_error_map. destruct (nth_error l j) as [x|]; cbn [option_map rmap fst snd]; [|reflexivity].
+    rewrite del_nth_map. reflexivity.
+  Qed.
+
+  Section WithProbe.
+    Context {C : Type}.
+    Variable eqA : A -> C -> bool.
+    Variable eqB : B -> C -> bool.
+    Hypothesis eq_compat : forall h x, eqB (f h) x = eqA h x.
+
+    Lemma list_remove_map (l : list A) x :
+      list_remove eqB (map f l) x = rmap (map f) (list_remove eqA l x).
+    Proof.
+      induction l as [|h t IH]; cbn [map list_remove rmap]; [reflexivity|].
+      rewrite eq_compat. destruct (eqA h x); [reflexivity|].
+      rewrite IH. destruct (list_remove eqA t x); reflexivity.
+    Qed.
+
+    Lemma list_index_from_map (l : list A) x i :
+      list_index_from eqB (map f l) x i = list_index_from eqA l x i.
+    Proof.
+      revert i. induction l as [|h t IH]; intros i; cbn [map list_index_from]; [reflexivity|].
+      rewrite eq_compat. destruct (eqA h x); [reflexivity|]. apply IH.
+    Qed.
+
+    Lemma list_index_map (l : list A) x : list_index eqB (map f l) x = list_index eqA l x.
+    Proof. apply list_index_from_map. Qed.
+
+    Lemma filter_probe_length (l : list A) x :
+      length (filter (fun h => eqB h x) (map f l)) = length (filter (fun h => eqA h x) l).
+    Proof.
+      induction l as [|h t IH]; cbn [map filter]; [reflexivity|].
+      rewrite eq_compat. destruct (eqA h x); cbn [length]; rewrite IH; reflexivity.
+    Qed.
+
+    Lemma list_count_map (l : list A) x : list_count eqB (map f l) x = list_count eqA l x.
+    Proof. unfold list_count, zlen. rewrite filter_probe_length. reflexivity. Qed.
+
+    Lemma list_contains_map (l : list A) x :
+      list_contains eqB (map f l) x = list_contains eqA l x.
+    Proof.
+      unfold list_contains. induction l as [|h t IH]; cbn [map existsb]; [reflexivity|].
+      rewrite eq_compat, IH. reflexivity.
+    Qed.
+  End WithProbe.
+
+  Lemma pick_map (l : list A) (is : list nat) : pick (map f l) is = map f (pick l is).
+  Proof.
+    induction is as [|i is IH]; cbn [pick map]; [reflexivity|].
+    rewrite nth_error_map. destruct (nth_error l i); cbn [option_map map]; rewrite IH; reflexivity.
+  Qed.
+
+  Lemma list_getslice_map (l : list A) s :
+    list_getslice (map f l) s = rmap (map f) (list_getslice l s).
+  Proof.
+    unfold list_getslice. rewrite zlen_map.
+    destruct (slice_indices (zlen l) s) as [is|e]; cbn [rmap]; [|reflexivity].
+    rewrite pick_map. reflexivity.
+  Qed.
+
+  Lemma drop_indices_map (l : list A) is pos :
+    drop_indices (map f l) is pos = map f (drop_indices l is pos).
+  Proof.
+    revert pos. induction l as [|h t IH]; intros pos; cbn [map drop_indices]; [reflexivity|].
+    destruct (existsb (Nat.eqb pos) is); cbn [map]; rewrite IH; reflexivity.
+  Qed.
+
+  Lemma list_delslice_map (l : list A) s :
+    list_delslice (map f l) s = rmap (map f) (list_delslice l s).
+  Proof.
+    unfold list_delslice. rewrite zlen_map.
+    destruct (slice_indices (zlen l) s) as [is|e]; cbn [rmap]; [|reflexivity].
+    rewrite drop_indices_map. reflexivity.
+  Qed.
+
+  Lemma assign_at_map (l : list A) is vs :
+    assign_at (map f l) is (map f vs) = map f (assign_at l is vs).
+  Proof.
+    revert l vs. induction is as [|i is IH]; intros l vs; cbn [assign_at]; [reflexivity|].
+    destruct vs as [|v vs]; cbn [map]; [reflexivity|].
+    rewrite set_nth_map. apply IH.
+  Qed.
+
+  Lemma list_setslice_map (l : list A) s vs :
+    list_setslice (map f l) s (map f vs) = rmap (map f) (list_setslice l s vs).
+  Proof.
+    unfold list_setslice. rewrite !zlen_map.
+    destruct (slice_adjust (zlen l) s) as [[[[start stop] step] cnt]|e]; cbn [rmap]; [|reflexivity].
+    destruct (Z.eqb step 1).
+    - cbn [rmap]. rewrite !map_app, firstn_map, skipn_map. reflexivity.
+    - destruct (Z.eqb (zlen vs) cnt); cbn [rmap]; [|reflexivity].
+      rewrite assign_at_map. reflexivity.
+  Qed.
+End ListMap.
+
+(* ------------------------------------------------------------------ *)
+(* generic dict operations commute with mapping the values             *)
+(* ------------------------------------------------------------------ *)
+
+Definition dmap {A B} (g : A -> B) (d : list (key * A)) : list (key * B) :=
+  map (fun kn : key * A => (fst kn, g (snd kn))) d.
+
+Section DictMap.
+  Context {A B : Type}.
+  Variable g : A -> B.
+
+  Lemma alookup_dmap k (d : list (key * A)) : alookup k (dmap g d) = option_map g (alookup k d).
+  Proof. apply alookup_map. Qed.
+
+  Lemma dict_has_dmap (d : list (key * A)) k : dict_has (dmap g d) k = dict_has d k.
+  Proof. unfold dict_has. rewrite alookup_dmap. destruct (alookup k d); reflexivity. Qed.
+
+  Lemma dict_get_dmap (d : list (key * A)) k : dict_get (dmap g d) k = rmap g (dict_get d k).
+  Proof. unfold dict_get. rewrite alookup_dmap. destruct (alookup k d); reflexivity. Qed.
+
+  Lemma dict_set_dmap (d : list (key * A)) k v :
+    dict_set (dmap g d) k (g v) = dmap g (dict_set d k v).
+  Proof.
+    unfold dmap. induction d as [|[k' v'] d IH]; cbn [map dict_set fst snd]; [reflexivity|].
+    destruct (key_eqb k k'); cbn [map fst snd]; [reflexivity|]. rewrite IH. reflexivity.
+  Qed.
+
+  Lemma dict_remove_dmap (d : list (key * A)) k :
+    dict_remove (dmap g d) k = dmap g (dict_remove d k).
+  Proof.
+    unfold dmap. induction d as [|[k' v'] d IH]; cbn [map dict_remove fst snd]; [reflexivity|].
+    destruct (key_eqb k k'); cbn [map fst snd]; [reflexivity|]. rewrite IH. reflexivity.
+  Qed.
+
+  Lemma dict_del_dmap (d : list (key * A)) k :
+    dict_del (dmap g d) k = rmap (dmap g) (dict_del d k).
+  Proof.
+    unfold dict_del. rewrite dict_has_dmap. destruct (dict_has d k); cbn [rmap]; [|reflexivity].
+    rewrite dict_remove_dmap. reflexivity.
+  Qed.
+
+  Lemma dict_pop_dmap (d : list (key * A)) k :
+    dict_pop (dmap g d) k = (option_map g (fst (dict_pop d k)), dmap g (snd (dict_pop d k))).
+  Proof.
+    unfold dict_pop. rewrite alookup_dmap.
+    destruct (alookup k d); cbn [option_map fst snd]; [|reflexivity].
+    rewrite dict_remove_dmap. reflexivity.
+  Qed.
+
+  Lemma dict_popitem_dmap (d : list (key * A)) :
+    dict_popitem (dmap g d)
+    = rmap (fun p : (key * A) * list (key * A) => ((fst (fst p), g (snd (fst p))), dmap g (snd p)))
+           (dict_popitem d).
+  Proof.
+    unfold dict_popitem, dmap. rewrite <- map_rev.
+    destruct (rev d) as [|kv r]; cbn [map rmap fst snd]; [reflexivity|].
+    rewrite map_rev. reflexivity.
+  Qed.
+
+  Lemma dict_keys_dmap (d : list (key * A)) : dict_keys (dmap g d) = dict_keys d.
+  Proof. unfold dict_keys, dmap. rewrite map_map. reflexivity. Qed.
+End DictMap.
+
+(* ------------------------------------------------------------------ *)
+(* from_base and the plain view                                        *)
+(* ------------------------------------------------------------------ *)
+
+Lemma from_base_to_base T c v nx n nx1 : from_base T c v nx = (n, nx1) -> to_base n = v.
+Proof.
+  intros E. pose proof (to_base_from_base T c v nx) as H. rewrite E in H. exact H.
+Qed.
+
+Lemma Forall2_to_base_map (vs : list val) (ns : list node) :
+  Forall2 (fun v n => to_base n = v) vs ns -> map to_base ns = vs.
+Proof.
+  intros H. induction H as [|v n vs ns Hv _ IH]; cbn [map]; [reflexivity|].
+  rewrite Hv, IH. reflexivity.
+Qed.
+
+Lemma map_st_from_base_to_base T c vs nx ns nx1 :
+  map_st (from_base T c) vs nx = (ns, nx1) -> map to_base ns = vs.
+Proof.
+  intros E. apply Forall2_to_base_map.
+  eapply map_st_rel_Forall2; [apply map_st_rel_intro; exact E|].
+  apply Forall_forall. intros v _ s. apply to_base_from_base.
+Qed.
+
+(* iter(node) against iter(plain view of the node) *)
+Lemma elems_of_node_spec n :
+  match iter_val (to_base n) with
+  | Ok vs => exists es, elems_of_node n = Ok es /\ map to_base es = vs
+  | Err e => elems_of_node n = Err e
+  end.
+Proof.
+  destruct n as [v|id c kids|id c d]; cbn [to_base elems_of_node].
+  - destruct (iter_val v) as [vs|e]; cbn [bind]; [|reflexivity].
+    exists (map NV vs). split; [reflexivity|].
+    rewrite map_map. cbn [to_base]. apply map_id.
+  - cbn [iter_val]. exists kids. split; reflexivity.
+  - cbn [iter_val]. eexists. split; [reflexivity|].
+    rewrite !map_map. reflexivity.
+Qed.
+
+Lemma node_eq_probe_compat h x : veq_py (to_base h) x = node_eq_probe h x.
+Proof. reflexivity. Qed.
+
+(* ------------------------------------------------------------------ *)
+(* the two refinement theorems                                         *)
+(* ------------------------------------------------------------------ *)
+
+Theorem in_lop_refines_plain T id c l o nx :
+  match o with LReset _ => False | _ => True end ->
+  let '((r, h), n', nx') := in_lop T id c l o nx in
+  r = fst (plain_lop (map to_base l) o) /\ to_base n' = VL (snd (plain_lop (map to_base l) o)).
+Proof.
+  intros Hpre.
+  pose proof (fun x : val => @list_index_map node val to_base val node_eq_probe
+                (fun h y => veq_py h y) node_eq_probe_compat l x) as Hidx.
+  pose proof (fun x : val => @list_count_map node val to_base val node_eq_probe
+                (fun h y => veq_py h y) node_eq_probe_compat l x) as Hcnt.
+  pose proof (fun x : val => @list_contains_map node val to_base val node_eq_probe
+                (fun h y => veq_py h y) node_eq_probe_compat l x) as Hcon.
+  pose proof (fun x : val => @list_remove_map node val to_base val node_eq_probe
+                (fun h y => veq_py h y) node_eq_probe_compat l x) as Hrem.
+  destruct o as [i|s| | | | |v|v|v|v|cm v|i v|s v|i|s|i v|v|v|v|v|i| | |v];
+    unfold in_lop, plain_lop, plain_res, elem_res; cbv beta zeta.
+  - (* LGet *)
+    rewrite list_get_map. destruct (list_get l i) as [n|e]; cbn [rmap fst snd to_base]; auto.
+  - (* LGetSlice *)
+    rewrite list_getslice_map.
+    destruct (list_getslice l s) as [x|e]; cbn [rmap bind fst snd to_base]; auto.
+  - (* LLen *) rewrite zlen_map. cbn [fst snd to_base]. auto.
+  - (* LCall *) cbn [fst snd to_base]. auto.
+  - (* LIter *) cbn [fst snd to_base]. auto.
+  - (* LReversed *) cbn [fst snd to_base]. auto.
+  - (* LIndex *) rewrite Hidx. cbn [fst snd to_base]. auto.
+  - (* LCount *) rewrite Hcnt. cbn [fst snd to_base]. auto.
+  - (* LContains *) rewrite Hcon. cbn [fst snd to_base]. auto.
+  - (* LEq *) cbn [fst snd to_base]. auto.
+  - (* LCmp *) cbn [fst snd to_base]. auto.
+  - (* LSet *)
+    destruct (from_base T c v nx) as [n nx1] eqn:E.
+    apply from_base_to_base in E. subst v.
+    rewrite list_set_map. destruct (list_set l i n) as [l'|e]; cbn [rmap fst snd to_base]; auto.
+  - (* LSetSlice *)
+    destruct (from_base T c v nx) as [n nx1] eqn:E.
+    apply from_base_to_base in E. subst v.
+    rewrite zlen_map.
+    destruct (slice_adjust (zlen l) s) as [q|e]; cbn [bind]; [|cbn [fst snd to_base]; auto].
+    pose proof (elems_of_node_spec n) as He.
+    destruct (iter_val (to_base n)) as [vs|e].
+    + destruct He as [es [He Hm]]. rewrite He. subst vs. cbn [bind].
+      rewrite list_setslice_map.
+      destruct (list_setslice l s es) as [l'|e]; cbn [rmap fst snd to_base]; auto.
+    + rewrite He. cbn [bind fst snd to_base]. auto.
+  - (* LDel *)
+    rewrite list_del_map. destruct (list_del l i) as [l'|e]; cbn [rmap fst snd to_base]; auto.
+  - (* LDelSlice *)
+    rewrite list_delslice_map.
+    destruct (list_delslice l s) as [l'|e]; cbn [rmap fst snd to_base]; auto.
+  - (* LInsert *)
+    destruct (from_base T c v nx) as [n nx1] eqn:E.
+    apply from_base_to_base in E. subst v.
+    rewrite list_insert_map. cbn [fst snd to_base]. auto.
+  - (* LAppend *)
+    destruct (from_base T c v nx) as [n nx1] eqn:E.
+    apply from_base_to_base in E. subst v.
+    cbn [fst snd to_base]. rewrite map_app. auto.
+  - (* LExtend *)
+    destruct (iter_val v) as [vs|e]; cbn [bind]; [|cbn [fst snd to_base]; auto].
+    destruct (map_st (from_base T c) vs nx) as [ns nx1] eqn:E.
+    apply map_st_from_base_to_base in E. subst vs.
+    cbn [fst snd to_base]. rewrite map_app. auto.
+  - (* LIAdd *)
+    destruct (iter_val v) as [vs|e]; cbn [bind]; [|cbn [fst snd to_base]; auto].
+    destruct (map_st (from_base T c) vs nx) as [ns nx1] eqn:E.
+    apply map_st_from_base_to_base in E. subst vs.
+    cbn [fst snd to_base]. rewrite map_app. auto.
+  - (* LRemove *)
+    rewrite Hrem.
+    destruct (list_remove node_eq_probe l v) as [l'|e]; cbn [rmap fst snd to_base]; auto.
+  - (* LPop *)
+    rewrite list_pop_map.
+    destruct (list_pop l match i with Some z => z | None => (-1)%Z end) as [[n l']|e];
+      cbn [rmap fst snd to_base]; auto.
+  - (* LReverse *) cbn [fst snd to_base]. rewrite map_rev. auto.
+  - (* LClear *) cbn [fst snd to_base map]. auto.
+  - (* LReset *) contradiction.
+Qed.
+
+Theorem in_dop_refines_plain T id c d o nx :
+  match o with
+  | DReset _ | DUpdate _ => False
+  | DSetdefault k v => validate (validators_of T c) (VD [(k, v)]) = None
+  | _ => True end ->
+  let '((r, h), n', nx') := in_dop T id c d o nx in
+  r = fst (plain_dop (map (fun kn : key * node => (fst kn, to_base (snd kn))) d) o)
+  /\ to_base n' = VD (snd (plain_dop (map (fun kn : key * node => (fst kn, to_base (snd kn))) d) o)).
+Proof.
+  intros Hpre.
+  change (map (fun kn : key * node => (fst kn, to_base (snd kn))) d) with (dmap to_base d).
+  destruct o as [k|k dflt| | | | | | |k|v|k v|k|k| | |v|k v|v];
+    unfold in_dop, plain_dop, plain_res, elem_res; cbv beta zeta;
+    change (map (fun kn : key * node => (fst kn, to_base (snd kn))) d) with (dmap to_base d).
+  - (* DGet *)
+    rewrite dict_get_dmap. destruct (dict_get d k) as [n|e]; cbn [rmap fst snd to_base]; auto.
+  - (* DGetDefault *)
+    rewrite alookup_dmap. destruct (alookup k d) as [n|]; cbn [option_map fst snd to_base]; auto.
+  - (* DLen *) unfold dmap at 1. rewrite zlen_map. cbn [fst snd to_base]. auto.
+  - (* DCall *) cbn [fst snd to_base]. auto.
+  - (* DIter *) rewrite dict_keys_dmap. cbn [fst snd to_base]. auto.
+  - (* DKeys *) rewrite dict_keys_dmap. cbn [fst snd to_base]. auto.
+  - (* DValues *) cbn [fst snd to_base]. auto.
+  - (* DItems *) cbn [fst snd to_base]. auto.
+  - (* DContains *) rewrite dict_has_dmap. cbn [fst snd to_base]. auto.
+  - (* DEq *) cbn [fst snd to_base]. auto.
+  - (* DSet *)
+    destruct (from_base T c v nx) as [n nx1] eqn:E.
+    apply from_base_to_base in E. subst v.
+    rewrite dict_set_dmap. cbn [fst snd to_base]. auto.
+  - (* DDel *)
+    rewrite dict_del_dmap. destruct (dict_del d k) as [d'|e]; cbn [rmap fst snd to_base]; auto.
+  - (* DPop *)
+    rewrite dict_pop_dmap. unfold dict_pop.
+    destruct (alookup k d) as [n|]; cbn [option_map fst snd to_base]; auto.
+  - (* DPopitem *)
+    rewrite dict_popitem_dmap.
+    destruct (dict_popitem d) as [[[k n] d']|e]; cbn [rmap fst snd to_base]; auto.
+  - (* DClear *) cbn [fst snd to_base map]. auto.
+  - (* DUpdate *) contradiction.
+  - (* DSetdefault *)
+    rewrite alookup_dmap. destruct (alookup k d) as [n|]; cbn [option_map fst snd to_base]; auto.
+    rewrite Hpre.
+    destruct (from_base T c v nx) as [n nx1] eqn:E.
+    apply from_base_to_base in E. subst v.
+    rewrite dict_set_dmap. cbn [fst snd to_base]. auto.
+  - (* DReset *) contradiction.
+Qed.
+
+(* ====================================================================== *)
+(* PART C *)
+(* ====================================================================== *)
+(* PART B — handles as paths: find_node / replace_node vs. plain_at; VEq congruence; update() *)
+
+(* ---------- nlookup / nset ---------- *)
+Lemma nlookup_nset_same {A} k (v : A) l : nlookup k (nset k v l) = Some v.
+Proof.
+  induction l as [|[k' v'] l IH]; cbn [nset nlookup].
+  - rewrite Nat.eqb_refl. reflexivity.
+  - destruct (Nat.eqb k k') eqn:E; cbn [nlookup].
+    + rewrite Nat.eqb_refl. reflexivity.
+    + rewrite E. exact IH.
+Qed.
+
+Lemma nlookup_nset_other {A} k k0 (v : A) l : k0 <> k -> nlookup k0 (nset k v l) = nlookup k0 l.
+Proof.
+  intros Hne. induction l as [|[k' v'] l IH]; cbn [nset nlookup].
+  - apply Nat.eqb_neq in Hne. rewrite Hne. reflexivity.
+  - destruct (Nat.eqb k k') eqn:E; cbn [nlookup].
+    + apply Nat.eqb_eq in E. subst k'. apply Nat.eqb_neq in Hne. rewrite Hne. reflexivity.
+    + destruct (Nat.eqb k0 k'); [reflexivity|exact IH].
+Qed.
+
+(* ---------- NoDup helpers ---------- *)
+Lemma NoDup_app_inv {A} (a b : list A) :
+  NoDup (a ++ b) -> NoDup a /\ NoDup b /\ (forall x, In x a -> ~ In x b).
+Proof.
+  induction a as [|x a IH]; cbn; intros H.
+  - split; [constructor|]. split; [exact H|]. intros x [].
+  - inversion H as [|? ? Hn Hd]; subst. destruct (IH Hd) as [A1 [A2 A3]].
+    split. { constructor; [|exact A1]. intros Hin. apply Hn. apply in_or_app; auto. }
+    split; [exact A2|]. intros y [<-|Hy] Hb.
+    + apply Hn. apply in_or_app; auto.
+    + exact (A3 y Hy Hb).
+Qed.
+
+Lemma NoDup_flat_map_In {A B} (f : A -> list B) l x :
+  NoDup (flat_map f l) -> In x l -> NoDup (f x).
+Proof.
+  induction l as [|a l IH]; cbn; intros Hd Hin; [contradiction|].
+  apply NoDup_app_inv in Hd. destruct Hd as [D1 [D2 _]].
+  destruct Hin as [<-|Hin]; auto.
+Qed.
+
+Lemma NoDup_flat_map_same {A B} (f : A -> list B) l x y h :
+  NoDup (flat_map f l) -> In x l -> In y l -> In h (f x) -> In h (f y) -> x = y.
+Proof.
+  induction l as [|a l IH]; cbn; intros Hd Hx Hy Hhx Hhy; [contradiction|].
+  apply NoDup_app_inv in Hd. destruct Hd as [D1 [D2 D3]].
+  destruct Hx as [<-|Hx], Hy as [<-|Hy].
+  - reflexivity.
+  - exfalso. apply (D3 h Hhx). apply in_flat_map. eauto.
+  - exfalso. apply (D3 h Hhy). apply in_flat_map. eauto.
+  - auto.
+Qed.
+
+(* ---------- find_node ---------- *)
+Lemma find_in_list_Some {A} (f : A -> option node) l r :
+  find_in_list f l = Some r -> exists x, In x l /\ f x = Some r.
+Proof.
+  induction l as [|x l IH]; cbn; intros H; [discriminate|].
+  destruct (f x) eqn:E.
+  - inversion H; subst. exists x. auto.
+  - destruct (IH H) as [y [Hy1 Hy2]]. exists y. auto.
+Qed.
+
+Lemma find_node_NL h id c l :
+  find_node h (NL id c l) = if Nat.eqb id h then Some (NL id c l) else find_in_list (find_node h) l.
+Proof. reflexivity. Qed.
+Lemma find_node_ND h id c d :
+  find_node h (ND id c d) = if Nat.eqb id h then Some (ND id c d)
+                            else find_in_list (fun kn : key * node => find_node h (snd kn)) d.
+Proof. reflexivity. Qed.
+Lemma replace_node_NL h r id c l :
+  replace_node h r (NL id c l) = if Nat.eqb id h then r else NL id c (map (replace_node h r) l).
+Proof. reflexivity. Qed.
+Lemma replace_node_ND h r id c d :
+  replace_node h r (ND id c d) = if Nat.eqb id h then r
+    else ND id c (map (fun kn : key * node => (fst kn, replace_node h r (snd kn))) d).
+Proof. reflexivity. Qed.
+
+Lemma find_node_In h n : forall m, find_node h n = Some m -> node_id m = Some h /\ In h (node_ids n).
+Proof.
+  induction n as [v|id c l IH|id c d IH] using node_ind2; intros m H.
+  - discriminate.
+  - rewrite find_node_NL in H. destruct (Nat.eqb id h) eqn:E.
+    + apply Nat.eqb_eq in E. inversion H; subst. cbn. auto.
+    + apply find_in_list_Some in H. destruct H as [x [Hx Hf]].
+      rewrite Forall_forall in IH. destruct (IH x Hx m Hf) as [A B]. split; [exact A|].
+      cbn. right. apply in_flat_map. eauto.
+  - rewrite find_node_ND in H. destruct (Nat.eqb id h) eqn:E.
+    + apply Nat.eqb_eq in E. inversion H; subst. cbn. auto.
+    + apply find_in_list_Some in H. destruct H as [x [Hx Hf]].
+      rewrite Forall_forall in IH. destruct (IH x Hx m Hf) as [A B]. split; [exact A|].
+      cbn. right. apply in_flat_map. eauto.
+Qed.
+
+Lemma find_node_path h root : forall n,
+  node_keys_unique root = true -> find_node h root = Some n ->
+  exists p, node_at p root = Some n /\ node_id n = Some h.
+Proof.
+  induction root as [v|id c l IH|id c d IH] using node_ind2; intros n Hu H.
+  - discriminate.
+  - rewrite find_node_NL in H. destruct (Nat.eqb id h) eqn:E.
+    + apply Nat.eqb_eq in E. inversion H; subst. exists []. cbn. auto.
+    + apply find_in_list_Some in H. destruct H as [x [Hx Hf]].
+      cbn [node_keys_unique] in Hu. rewrite forallb_forall in Hu.
+      rewrite Forall_forall in IH. destruct (IH x Hx n (Hu x Hx) Hf) as [p [P1 P2]].
+      apply In_nth_error in Hx. destruct Hx as [i Hi].
+      exists (PIdx i :: p). cbn [node_at node_child]. rewrite Hi. auto.
+  - rewrite find_node_ND in H. destruct (Nat.eqb id h) eqn:E.
+    + apply Nat.eqb_eq in E. inversion H; subst. exists []. cbn. auto.
+    + apply find_in_list_Some in H. destruct H as [[k x] [Hx Hf]]. cbn [snd] in Hf.
+      cbn [node_keys_unique] in Hu. apply andb_true_iff in Hu. destruct Hu as [Hku Hu].
+      rewrite forallb_forall in Hu.
+      rewrite Forall_forall in IH. destruct (IH (k, x) Hx n (Hu (k, x) Hx) Hf) as [p [P1 P2]].
+      exists (PKey k :: p). cbn [node_at node_child].
+      rewrite (In_alookup_unique _ _ _ Hku Hx). auto.
+Qed.
+
+(* ---------- sub-nodes inherit the tree's properties ---------- *)
+Lemma node_child_incl s n m : node_child s n = Some m ->
+  incl (node_ids m) (node_ids n) /\ incl (node_classes m) (node_classes n).
+Proof.
+  destruct s as [k|i], n as [v|id c l|id c d]; cbn; intros H; try discriminate.
+  - apply alookup_In in H. split; intros x Hx; right; apply in_flat_map; exists (k, m); auto.
+  - apply nth_error_In in H. split; intros x Hx; right; apply in_flat_map; exists m; auto.
+Qed.
+
+Lemma node_child_nku s n m :
+  node_child s n = Some m -> node_keys_unique n = true -> node_keys_unique m = true.
+Proof.
+  destruct s as [k|i], n as [v|id c l|id c d]; cbn; intros H U; try discriminate.
+  - apply andb_true_iff in U. destruct U as [_ U]. rewrite forallb_forall in U.
+    apply alookup_In in H. apply (U (k, m) H).
+  - rewrite forallb_forall in U. apply nth_error_In in H. auto.
+Qed.
+
+Lemma node_child_nodup s n m :
+  node_child s n = Some m -> NoDup (node_ids n) -> NoDup (node_ids m).
+Proof.
+  destruct s as [k|i], n as [v|id c l|id c d]; cbn; intros H U; try discriminate;
+    inversion U as [|? ? _ U']; subst.
+  - apply alookup_In in H.
+    apply (NoDup_flat_map_In (fun kn : key * node => node_ids (snd kn)) d (k, m) U' H).
+  - apply nth_error_In in H. apply (NoDup_flat_map_In node_ids l m U' H).
+Qed.
+
+Lemma node_at_sub p : forall root n, node_at p root = Some n ->
+  incl (node_ids n) (node_ids root) /\ incl (node_classes n) (node_classes root)
+  /\ (node_keys_unique root = true -> node_keys_unique n = true).
+Proof.
+  induction p as [|s p IH]; intros root n H; cbn [node_at] in H.
+  - inversion H; subst. split; [apply incl_refl|]. split; [apply incl_refl|auto].
+  - destruct (node_child s root) as [m|] eqn:E; [|discriminate].
+    destruct (IH m n H) as [A [B C]]. destruct (node_child_incl _ _ _ E) as [A' B'].
+    split; [eapply incl_tran; eauto|]. split; [eapply incl_tran; eauto|].
+    intros U. apply C. eapply node_child_nku; eauto.
+Qed.
+
+Lemma node_at_in_backend T b p root n :
+  node_at p root = Some n -> node_in_backend T b root -> node_in_backend T b n.
+Proof.
+  intros H Hb c Hc. apply Hb. destruct (node_at_sub _ _ _ H) as [_ [B _]]. apply B. exact Hc.
+Qed.
+
+Lemma node_at_val_at p : forall root n,
+  node_at p root = Some n -> val_at p (to_base root) = Some (to_base n).
+Proof.
+  induction p as [|s p IH]; intros root n H; cbn [node_at val_at] in *.
+  - inversion H; reflexivity.
+  - destruct (node_child s root) as [m|] eqn:E; [|discriminate].
+    assert (E' : val_child s (to_base root) = Some (to_base m)).
+    { destruct s as [k|i], root as [v|id c l|id c d]; cbn in *; try discriminate.
+      - rewrite (alookup_map to_base), E. reflexivity.
+      - apply map_nth_error. exact E. }
+    rewrite E'. apply IH; exact H.
+Qed.
+
+(* ---------- replacing the content at a path in plain data ---------- *)
+Fixpoint put_at (p : path) (v c' : val) : val :=
+  match p with
+  | [] => c'
+  | PKey k :: p' =>
+      match v with
+      | VD d => match alookup k d with
+                | Some c => VD (dict_set d k (put_at p' c c'))
+                | None => v
+                end
+      | _ => v
+      end
+  | PIdx i :: p' =>
+      match v with
+      | VL l => match nth_error l i with
+                | Some c => VL (set_nth l i (put_at p' c c'))
+                | None => v
+                end
+      | _ => v
+      end
+  end.
+
+Lemma plain_at_put p o : forall v w r c',
+  val_at p v = Some w -> plain_nop w o = Some (r, c') ->
+  plain_at p o v = Some (r, put_at p v c').
+Proof.
+  induction p as [|[k|i] p IH]; intros v w r c' Hv Hp; cbn [val_at plain_at put_at] in *.
+  - inversion Hv; subst. exact Hp.
+  - destruct v as [s|l|d]; cbn [val_child] in Hv; try discriminate.
+    destruct (alookup k d) as [x|] eqn:E; [|discriminate].
+    rewrite (IH x w r c' Hv Hp). reflexivity.
+  - destruct v as [s|l|d]; cbn [val_child] in Hv; try discriminate.
+    destruct (nth_error l i) as [x|] eqn:E; [|discriminate].
+    rewrite (IH x w r c' Hv Hp). reflexivity.
+Qed.
+
+Lemma alookup_dict_set {A} (d : list (key * A)) k k0 n :
+  alookup k0 (dict_set d k n) = if key_eqb k0 k then Some n else alookup k0 d.
+Proof.
+  destruct (key_eqb k0 k) eqn:E.
+  - apply key_eqb_eq in E. subst. apply alookup_dict_set_same.
+  - apply alookup_dict_set_other. apply key_eqb_neq. exact E.
+Qed.
+
+Lemma Forall2_VEq_refl l : Forall2 VEq l l.
+Proof. induction l; constructor; auto using VEq_refl. Qed.
+
+Lemma VEq_dict_set d k x y : VEq x y -> VEq (VD (dict_set d k x)) (VD (dict_set d k y)).
+Proof.
+  intros H. constructor.
+  - intros k0 z Hz. rewrite alookup_dict_set in *. destruct (key_eqb k0 k).
+    + inversion Hz; subst. eauto.
+    + exists z. split; [exact Hz|apply VEq_refl].
+  - intros k0 Hz. rewrite alookup_dict_set in *. destruct (key_eqb k0 k); [discriminate|exact Hz].
+Qed.
+
+Lemma VEq_set_nth l i x y : VEq x y -> VEq (VL (set_nth l i x)) (VL (set_nth l i y)).
+Proof.
+  intros H. constructor. revert i. induction l as [|a l IH]; intros i; cbn [set_nth].
+  - constructor.
+  - destruct i; constructor; auto using VEq_refl, Forall2_VEq_refl.
+Qed.
+
+Lemma VEq_put p : forall v a b, VEq a b -> VEq (put_at p v a) (put_at p v b).
+Proof.
+  induction p as [|[k|i] p IH]; intros v a b H; cbn [put_at].
+  - exact H.
+  - destruct v as [s|l|d]; try apply VEq_refl.
+    destruct (alookup k d); [|apply VEq_refl]. apply VEq_dict_set. apply IH; exact H.
+  - destruct v as [s|l|d]; try apply VEq_refl.
+    destruct (nth_error l i); [|apply VEq_refl]. apply VEq_set_nth. apply IH; exact H.
+Qed.
+
+(* ---------- replace_node = put_at on the plain view ---------- *)
+Lemma replace_notin h r n : ~ In h (node_ids n) -> replace_node h r n = n.
+Proof.
+  induction n as [v|id c l IH|id c d IH] using node_ind2; intros Hn.
+  - reflexivity.
+  - rewrite replace_node_NL. cbn [node_ids] in Hn. destruct (Nat.eqb id h) eqn:E.
+    { apply Nat.eqb_eq in E. exfalso. apply Hn. left. exact E. }
+    f_equal. rewrite <- (map_id l) at 2. apply map_ext_in. intros x Hx.
+    rewrite Forall_forall in IH. apply IH; auto.
+    intros Hin. apply Hn. right. apply in_flat_map. eauto.
+  - rewrite replace_node_ND. cbn [node_ids] in Hn. destruct (Nat.eqb id h) eqn:E.
+    { apply Nat.eqb_eq in E. exfalso. apply Hn. left. exact E. }
+    f_equal. rewrite <- (map_id d) at 2. apply map_ext_in. intros [k x] Hx. cbn [fst snd].
+    rewrite Forall_forall in IH. pose proof (IH (k, x) Hx) as Hk. cbn [snd] in Hk.
+    rewrite Hk; auto.
+    intros Hin. apply Hn. right. apply in_flat_map. exists (k, x). auto.
+Qed.
+
+Lemma map_replace_list h r : forall l i m,
+  nth_error l i = Some m -> NoDup (flat_map node_ids l) -> In h (node_ids m) ->
+  map (fun x => to_base (replace_node h r x)) l
+  = set_nth (map to_base l) i (to_base (replace_node h r m)).
+Proof.
+  induction l as [|a l IH]; intros i m Hn Hd Hin.
+  - destruct i; discriminate.
+  - cbn [flat_map] in Hd. apply NoDup_app_inv in Hd. destruct Hd as [D1 [D2 D3]].
+    destruct i as [|i]; cbn [nth_error] in Hn; cbn [map set_nth].
+    + inversion Hn; subst a. f_equal.
+      apply map_ext_in. intros x Hx. rewrite replace_notin; [reflexivity|].
+      intros Hc. apply (D3 h Hin). apply in_flat_map. eauto.
+    + f_equal.
+      * rewrite replace_notin; [reflexivity|]. intros Hc. apply (D3 h Hc).
+        apply in_flat_map. exists m. split; [eapply nth_error_In; eauto|exact Hin].
+      * apply IH; auto.
+Qed.
+
+Lemma map_replace_dict h r : forall (d : list (key * node)) k m,
+  alookup k d = Some m ->
+  NoDup (flat_map (fun kn : key * node => node_ids (snd kn)) d) -> In h (node_ids m) ->
+  map (fun kn : key * node => (fst kn, to_base (replace_node h r (snd kn)))) d
+  = dict_set (map (fun kn : key * node => (fst kn, to_base (snd kn))) d) k (to_base (replace_node h r m)).
+Proof.
+  induction d as [|[k' m'] d IH]; intros k m Hl Hd Hin; [discriminate|].
+  cbn [flat_map snd] in Hd. apply NoDup_app_inv in Hd. destruct Hd as [D1 [D2 D3]].
+  cbn [alookup] in Hl. cbn [map dict_set fst snd]. destruct (key_eqb k k') eqn:E.
+  - inversion Hl; subst m'. f_equal.
+    apply map_ext_in. intros [k2 m2] Hx. cbn [fst snd]. rewrite replace_notin; [reflexivity|].
+    intros Hc. apply (D3 h Hin). apply in_flat_map. exists (k2, m2). auto.
+  - f_equal.
+    + rewrite replace_notin; [reflexivity|]. intros Hc. apply (D3 h Hc).
+      apply in_flat_map. exists (k, m). split; [apply alookup_In; exact Hl|exact Hin].
+    + apply IH; auto.
+Qed.
+
+Lemma node_id_In n h : node_id n = Some h -> In h (node_ids n).
+Proof. destruct n; cbn; intros H; try discriminate; inversion H; auto. Qed.
+
+Lemma replace_node_put h r p : forall root n,
+  node_at p root = Some n -> node_id n = Some h -> NoDup (node_ids root) ->
+  to_base (replace_node h r root) = put_at p (to_base root) (to_base r).
+Proof.
+  induction p as [|s p IH]; intros root n Hat Hid Hd.
+  - cbn in Hat. inversion Hat; subst n.
+    destruct root as [v|id c l|id c d]; cbn in Hid; try discriminate; inversion Hid; subst;
+      cbn [replace_node]; rewrite Nat.eqb_refl; reflexivity.
+  - cbn [node_at] in Hat. destruct (node_child s root) as [m|] eqn:Ec; [|discriminate].
+    assert (Hin : In h (node_ids m)).
+    { destruct (node_at_sub _ _ _ Hat) as [I _]. apply I. apply node_id_In; exact Hid. }
+    pose proof (node_child_nodup _ _ _ Ec Hd) as Hdm.
+    pose proof (IH m n Hat Hid Hdm) as IHm.
+    destruct s as [k|i], root as [v|id c l|id c d]; cbn [node_child] in Ec; try discriminate.
+    + cbn [node_ids] in Hd. inversion Hd as [|? ? Hn Hd']; subst.
+      assert (Hne : Nat.eqb id h = false).
+      { apply Nat.eqb_neq. intros ->. apply Hn. apply in_flat_map. exists (k, m).
+        split; [apply alookup_In; exact Ec|exact Hin]. }
+      rewrite replace_node_ND, Hne. cbn [to_base put_at]. rewrite map_map. cbn [fst snd].
+      rewrite (alookup_map to_base), Ec. cbn [option_map].
+      rewrite (map_replace_dict h r d k m Ec Hd' Hin). rewrite IHm. reflexivity.
+    + cbn [node_ids] in Hd. inversion Hd as [|? ? Hn Hd']; subst.
+      assert (Hne : Nat.eqb id h = false).
+      { apply Nat.eqb_neq. intros ->. apply Hn. apply in_flat_map. exists m.
+        split; [eapply nth_error_In; eauto|exact Hin]. }
+      rewrite replace_node_NL, Hne. cbn [to_base put_at]. rewrite map_map.
+      rewrite (map_nth_error to_base _ _ Ec).
+      rewrite (map_replace_list h r l i m Ec Hd' Hin). rewrite IHm. reflexivity.
+Qed.
+
+Lemma replace_same h : forall root n,
+  NoDup (node_ids root) -> find_node h root = Some n -> replace_node h n root = root.
+Proof.
+  induction root as [v|id c l IH|id c d IH] using node_ind2; intros n Hd H.
+  - discriminate.
+  - rewrite find_node_NL in H. rewrite replace_node_NL. destruct (Nat.eqb id h) eqn:E.
+    + inversion H; reflexivity.
+    + apply find_in_list_Some in H. destruct H as [x [Hx Hf]].
+      cbn [node_ids] in Hd. inversion Hd as [|? ? _ Hd']; subst.
+      f_equal. rewrite <- (map_id l) at 2. apply map_ext_in. intros y Hy.
+      destruct (in_dec Nat.eq_dec h (node_ids y)) as [Hin|Hnin].
+      * assert (x = y).
+        { eapply (NoDup_flat_map_same node_ids l x y h); eauto.
+          apply (find_node_In _ _ _ Hf). }
+        subst y. rewrite Forall_forall in IH. apply IH; auto.
+        eapply NoDup_flat_map_In; eauto.
+      * apply replace_notin; exact Hnin.
+  - rewrite find_node_ND in H. rewrite replace_node_ND. destruct (Nat.eqb id h) eqn:E.
+    + inversion H; reflexivity.
+    + apply find_in_list_Some in H. destruct H as [x [Hx Hf]].
+      cbn [node_ids] in Hd. inversion Hd as [|? ? _ Hd']; subst.
+      f_equal. rewrite <- (map_id d) at 2. apply map_ext_in. intros y Hy.
+      destruct (in_dec Nat.eq_dec h (node_ids (snd y))) as [Hin|Hnin].
+      * assert (x = y).
+        { eapply (NoDup_flat_map_same (fun kn : key * node => node_ids (snd kn)) d x y h); eauto.
+          apply (find_node_In _ _ _ Hf). }
+        subst y. rewrite Forall_forall in IH. rewrite (IH x Hx n); auto.
+        { destruct x; reflexivity. }
+        apply (NoDup_flat_map_In (fun kn : key * node => node_ids (snd kn)) d x Hd' Hx).
+      * rewrite replace_notin by exact Hnin. destruct y; reflexivity.
+Qed.
+
+(* ====================================================================== *)
+(* PART D *)
+(* ====================================================================== *)
+(* PART C — arguments: iter_val / as_mapping on valid data; update() as a merge *)
+
+(* ---------- dict_update ---------- *)
+Fixpoint lastv {A} (k : key) (o : list (key * A)) : option A :=
+  match o with
+  | [] => None
+  | (k', v) :: o' => match lastv k o' with
+                     | Some y => Some y
+                     | None => if key_eqb k k' then Some v else None
+                     end
+  end.
+
+Lemma dict_update_cons {A} (D : list (key * A)) k v o :
+  dict_update D ((k, v) :: o) = dict_update (dict_set D k v) o.
+Proof. reflexivity. Qed.
+
+Lemma alookup_dict_update_last {A} k (o : list (key * A)) : forall D,
+  alookup k (dict_update D o) = match lastv k o with Some y => Some y | None => alookup k D end.
+Proof.
+  induction o as [|[k' v] o IH]; intros D; cbn [lastv].
+  - reflexivity.
+  - rewrite dict_update_cons, IH. destruct (lastv k o); [reflexivity|].
+    rewrite alookup_dict_set. destruct (key_eqb k k'); reflexivity.
+Qed.
+
+Lemma alookup_dict_update {A} k (D o : list (key * A)) :
+  alookup k (dict_update D o)
+  = match alookup k (dict_update [] o) with Some y => Some y | None => alookup k D end.
+Proof.
+  rewrite !alookup_dict_update_last. destruct (lastv k o); reflexivity.
+Qed.
+
+Lemma keys_unique_dict_update {A} (o : list (key * A)) : forall D,
+  keys_unique D = true -> keys_unique (dict_update D o) = true.
+Proof.
+  induction o as [|[k v] o IH]; intros D H; [exact H|].
+  rewrite dict_update_cons. apply IH. apply keys_unique_dict_set. exact H.
+Qed.
+
+Lemma Forall_dict_update {A} (Q : key * A -> Prop) (o : list (key * A)) : forall D,
+  Forall Q D -> Forall Q o -> Forall Q (dict_update D o).
+Proof.
+  induction o as [|[k v] o IH]; intros D HD Ho; [exact HD|].
+  rewrite dict_update_cons. inversion Ho; subst. apply IH; auto. apply Forall_dict_set; auto.
+Qed.
+
+Lemma alookup_app {A} k (a b : list (key * A)) :
+  alookup k (a ++ b) = match alookup k a with Some x => Some x | None => alookup k b end.
+Proof.
+  induction a as [|[k' v] a IH]; cbn [app alookup]; [reflexivity|].
+  destruct (key_eqb k k'); [reflexivity|exact IH].
+Qed.
+
+Lemma keys_unique_app {A} (a b : list (key * A)) :
+  keys_unique a = true -> keys_unique b = true ->
+  (forall k x, alookup k a = Some x -> alookup k b = None) ->
+  keys_unique (a ++ b) = true.
+Proof.
+  induction a as [|[k v] a IH]; cbn [app keys_unique]; intros Ha Hb Hd; [exact Hb|].
+  destruct (alookup k a) eqn:E; [discriminate|].
+  rewrite alookup_app, E. rewrite (Hd k v).
+  - apply IH; auto. intros k0 x Hx. apply (Hd k0 x). cbn [alookup].
+    destruct (key_eqb k0 k) eqn:E0; [|exact Hx].
+    apply key_eqb_eq in E0. subst. congruence.
+  - cbn [alookup]. rewrite key_eqb_refl. reflexivity.
+Qed.
+
+(* ---------- update_entries ---------- *)
+Definition sel_entries {A} (od : list (key * val)) (d : list (key * A)) : list (key * val) :=
+  flat_map (fun kn : key * A => match alookup (fst kn) od with
+                                | Some v => [(fst kn, v)] | None => [] end) d.
+
+Lemma alookup_sel_entries {A} (od : list (key * val)) (d : list (key * A)) k :
+  alookup k (sel_entries od d) = match alookup k d with Some _ => alookup k od | None => None end.
+Proof.
+  unfold sel_entries. induction d as [|[k' x] d IH]; cbn [flat_map alookup fst].
+  - reflexivity.
+  - destruct (key_eqb k k') eqn:E.
+    + apply key_eqb_eq in E. subst k'. destruct (alookup k od) eqn:E2; cbn [app alookup].
+      * rewrite key_eqb_refl. reflexivity.
+      * rewrite IH. destruct (alookup k d); auto.
+    + destruct (alookup k' od); cbn [app alookup]; rewrite ?E; exact IH.
+Qed.
+
+Lemma keys_unique_sel_entries {A} (od : list (key * val)) (d : list (key * A)) :
+  keys_unique d = true -> keys_unique (sel_entries od d) = true.
+Proof.
+  induction d as [|[k' x] d IH]; intros Hu; [reflexivity|].
+  cbn [keys_unique] in Hu. destruct (alookup k' d) eqn:E; [discriminate|].
+  change (sel_entries od ((k', x) :: d))
+    with ((match alookup k' od with Some v => [(k', v)] | None => [] end) ++ sel_entries od d).
+  destruct (alookup k' od); cbn [app keys_unique]; [|auto].
+  rewrite alookup_sel_entries, E. auto.
+Qed.
+
+Lemma update_entries_eq d o :
+  update_entries d o = sel_entries (dict_update [] o) d
+                       ++ filter (fun kv : key * val => negb (dict_has d (fst kv))) (dict_update [] o).
+Proof. reflexivity. Qed.
+
+Lemma alookup_update_entries d o k :
+  alookup k (update_entries d o) = alookup k (dict_update [] o).
+Proof.
+  rewrite update_entries_eq, alookup_app, alookup_sel_entries.
+  rewrite (alookup_filter_key (fun k => negb (dict_has d k))). unfold dict_has.
+  destruct (alookup k d); cbn [negb].
+  - destruct (alookup k (dict_update [] o)); reflexivity.
+  - reflexivity.
+Qed.
+
+Lemma keys_unique_update_entries d o :
+  keys_unique d = true -> keys_unique (update_entries d o) = true.
+Proof.
+  intros Hd. rewrite update_entries_eq. apply keys_unique_app.
+  - apply keys_unique_sel_entries; exact Hd.
+  - apply (keys_unique_filter_key (fun k => negb (dict_has d k))).
+    apply keys_unique_dict_update. reflexivity.
+  - intros k x Hx. rewrite alookup_sel_entries in Hx.
+    rewrite (alookup_filter_key (fun k => negb (dict_has d k))). unfold dict_has.
+    destruct (alookup k d); [reflexivity|discriminate].
+Qed.
+
+Lemma Forall_update_entries (Q : key * val -> Prop) d o :
+  Forall Q o -> Forall Q (update_entries d o).
+Proof.
+  intros Ho. assert (Hod : Forall Q (dict_update [] o)) by (apply Forall_dict_update; auto).
+  rewrite update_entries_eq. apply Forall_app. split.
+  - unfold sel_entries. apply Forall_forall. intros [k v] Hin. apply in_flat_map in Hin.
+    destruct Hin as [[k' x] [_ Hin]]. cbn [fst] in Hin.
+    destruct (alookup k' (dict_update [] o)) eqn:E; [|contradiction].
+    destruct Hin as [Hin|[]]. inversion Hin; subst.
+    apply alookup_In in E. rewrite Forall_forall in Hod. apply Hod; exact E.
+  - apply Forall_filter'. exact Hod.
+Qed.
+
+(* ---------- update() on a dict node is a merge ---------- *)
+Definition tbd (d : list (key * node)) : list (key * val) :=
+  map (fun kn : key * node => (fst kn, to_base (snd kn))) d.
+
+Lemma dupdate_ok T b L c d od nx :
+  backend_has_both T b = true -> uniform_backend T b L = true ->
+  in_backend T b c = true -> val_ok L (VD od) = true ->
+  Forall (fun kv : key * val => wf_val (snd kv) = true) od ->
+  Forall (nib_entry T b) d -> Forall nku_entry d -> keys_unique d = true ->
+  exists d' nx',
+    upd_entries T (fun w => upd T w) c (update_entries d od) d nx = (d', nx', None)
+    /\ VEq (VD (tbd d')) (VD (dict_update (tbd d) od)).
+Proof.
+  intros HB HU Hc Hok Hwf Hnib Hnku Hdu.
+  apply val_ok_VD in Hok.
+  set (dd := update_entries d od).
+  assert (Hok' : Forall (fun kv : key * val => key_ok L (fst kv) = true /\ val_ok L (snd kv) = true) dd)
+    by (apply Forall_update_entries; exact Hok).
+  assert (Hwf' : Forall (fun kv : key * val => wf_val (snd kv) = true) dd)
+    by (apply Forall_update_entries; exact Hwf).
+  assert (HF : Forall (fun kv : key * val => upd_good T b ((fun w => upd T w) (snd kv)) (snd kv)) dd).
+  { rewrite Forall_forall in *. intros x Hx. apply (upd_full T b L HB HU).
+    - apply (Hok' x Hx).
+    - apply (Hwf' x Hx). }
+  destruct (upd_entries_ok T b L HB HU (fun w => upd T w) c dd
+              (fun nv n nx => upd_mismatch T nv n nx) HF Hc Hok' Hwf'
+              (keys_unique_update_entries d od Hdu) d nx Hnib Hnku Hdu)
+    as [d' [nx' [E [B1 [B2 _]]]]].
+  exists d', nx'. split; [exact E|].
+  assert (Hl : forall k, alookup k dd = alookup k (dict_update [] od))
+    by (intros k; apply alookup_update_entries).
+  unfold tbd. constructor.
+  - intros k x Hx. rewrite (alookup_map to_base) in Hx. rewrite alookup_dict_update, <- Hl.
+    destruct (alookup k dd) as [y|] eqn:Ey.
+    + destruct (B1 k y Ey) as [n [C1 [C2 _]]]. rewrite C1 in Hx. cbn in Hx.
+      inversion Hx; subst. exists y. auto.
+    + rewrite (B2 k Ey) in Hx. rewrite (alookup_map to_base). exists x. split; [exact Hx|apply VEq_refl].
+  - intros k Hx. rewrite (alookup_map to_base) in Hx. rewrite alookup_dict_update, <- Hl.
+    destruct (alookup k dd) as [y|] eqn:Ey.
+    + destruct (B1 k y Ey) as [n [C1 _]]. rewrite C1 in Hx. discriminate.
+    + rewrite (B2 k Ey) in Hx. rewrite (alookup_map to_base). exact Hx.
+Qed.
+
+(* ---------- as_mapping ---------- *)
+Lemma pairs_to_dict_wf l : forall dd,
+  pairs_to_dict l = Some dd -> forallb wf_val l = true ->
+  Forall (fun kv : key * val => wf_val (snd kv) = true) dd.
+Proof.
+  induction l as [|x l IH]; intros dd H Hwf; cbn [pairs_to_dict] in H.
+  - inversion H; constructor.
+  - cbn [forallb] in Hwf. apply andb_true_iff in Hwf. destruct Hwf as [Hx Hl].
+    destruct x as [s|[|[[| | |f|s|t]|?|?] [|v [|? ?]]]|?]; try discriminate.
+    destruct (pairs_to_dict l) as [d0|]; [|discriminate]. inversion H; subst.
+    constructor; [|apply IH; auto].
+    cbn [snd]. cbn in Hx. rewrite andb_true_r in Hx. exact Hx.
+Qed.
+
+Lemma as_mapping_wf v od :
+  as_mapping v = Ok od -> wf_val v = true ->
+  Forall (fun kv : key * val => wf_val (snd kv) = true) od.
+Proof.
+  destruct v as [s|l|d]; cbn [as_mapping]; intros H Hwf; try discriminate.
+  - destruct (pairs_to_dict l) as [dd|] eqn:E; [|discriminate]. inversion H; subst.
+    apply Forall_dict_update; [constructor|]. apply (pairs_to_dict_wf l); auto.
+  - inversion H; subst. cbn in Hwf. apply andb_true_iff in Hwf. destruct Hwf as [_ Hwf].
+    apply forallb_Forall' in Hwf. exact Hwf.
+Qed.
+
+(* ---------- iter_val ---------- *)
+Lemma lang3_json_str vs : l_json_leaves (lang3 vs) = true -> l_str_keys (lang3 vs) = true.
+Proof.
+  induction vs as [|n vs IH]; cbn; intros H; [discriminate|].
+  destruct n; reflexivity.
+Qed.
+
+Lemma val_all_keys_list pl pk (d : list (key * val)) :
+  (forall k, pl (match k with KStr s => SStr s | KBad t => SBad t end) = true) ->
+  val_all pl pk (VL (map (fun kv : key * val => vkey (fst kv)) d)) = true.
+Proof.
+  intros H. cbn [val_all]. apply forallb_forall. intros x Hx. apply in_map_iff in Hx.
+  destruct Hx as [[k w] [<- _]]. cbn [fst]. specialize (H k). destruct k; exact H.
+Qed.
+
+Lemma iter_val_ok vs v l :
+  val_ok (lang3 vs) v = true -> iter_val v = Ok l -> val_ok (lang3 vs) (VL l) = true.
+Proof.
+  intros Hok Hi. destruct v as [s|l0|d]; cbn [iter_val] in Hi.
+  - destruct s; try discriminate. inversion Hi; subst.
+    apply val_ok_VL. apply Forall_forall. intros x Hx. apply in_map_iff in Hx.
+    destruct Hx as [c [<- _]]. unfold val_ok. cbn. rewrite !orb_true_r. reflexivity.
+  - inversion Hi; subst. exact Hok.
+  - inversion Hi; subst. pose proof (lang3_json_str vs) as HJ.
+    unfold val_ok in *. apply andb_true_iff in Hok. destruct Hok as [Hok H3].
+    apply andb_true_iff in Hok. destruct Hok as [H1 H2].
+    apply andb_true_iff. split; [apply andb_true_iff; split|].
+    + apply orb_true_iff. right. apply val_all_keys_list. reflexivity.
+    + destruct (l_json_leaves (lang3 vs)); [|reflexivity]. cbn [negb orb].
+      rewrite (HJ eq_refl) in H1. cbn [negb orb] in H1.
+      unfold json_leaves. cbn [val_all]. apply forallb_forall. intros x Hx. apply in_map_iff in Hx.
+      destruct Hx as [[k w] [<- Hin]]. cbn [fst].
+      rewrite str_keys_VD in H1. rewrite forallb_forall in H1. specialize (H1 (k, w) Hin).
+      cbn [fst] in H1. apply andb_true_iff in H1. destruct H1 as [H1 _].
+      destruct k; [reflexivity|discriminate].
+    + apply orb_true_iff. right. apply val_all_keys_list. reflexivity.
+Qed.
+
+(* ====================================================================== *)
+(* PART E *)
+(* ====================================================================== *)
+(* PART D — the machine theorems *)
 
 (* ---------- facts from the class table and the invariant ---------- *)
 Lemma table_cls_ok T c :
@@ -34,7 +1428,7 @@ Lemma load_ok T s oid ob c :
 Proof.
   intros HT HI HR Hob Hc.
   pose proof (HI oid ob Hob) as I. destruct (HR oid ob c Hob Hc) as [Vok [Vwf Vk]].
-  destruct (table_cls_ok T (o_cls ob) HT (oi_cls _ _ _ I)) as [HB [HU Hin]].
+  destruct (table_cls_ok T (o_cls ob) HT (oi_cls _ _ _ I)) as [HB [HU Hinb]].
   unfold load_root. rewrite Hc.
   destruct (upd_correct T _ _ c (o_root ob) (m_next s) HB HU (oi_backend _ _ _ I)
               (oi_container _ _ _ I) (eq_sym Vk) Vok Vwf (oi_keys _ _ _ I))
@@ -180,3 +1574,394 @@ Proof.
       cbn [fst snd] in R. destruct R as [R1 R2].
       subst r0. exists (VD d0). split; [reflexivity|]. rewrite R2. split; [apply VEq_refl|auto].
 Qed.
+
+(* ---------- the shape of [step] for MOp ---------- *)
+Definition step_body (T : class_table) (s : mstate) (oid hid : nat) (o : nop) (ob : obj)
+    (skip : bool) (root1 : node) (nx1 : nat) : mstate * mresult :=
+  match find_node hid root1 with
+  | None =>
+      if nop_is_read o then (keep_root s oid ob root1 nx1, MDetached)
+      else (save_root s oid ob root1 nx1, MDetached)
+  | Some n1 =>
+      match in_nop T n1 o nx1 with
+      | None => (s, MBad)
+      | Some ((r, h), n2, nx2) =>
+          let root2 := replace_node hid n2 root1 in
+          if nop_is_read o then (keep_root s oid ob root2 nx2, MR r h)
+          else
+            match r, skip with
+            | Err _, true => (keep_root s oid ob root2 nx2, MR r h)
+            | _, _ => (save_root s oid ob root2 nx2, MR r h)
+            end
+      end
+  end.
+
+Lemma step_MOp_eq T s oid hid o ob n0 :
+  nlookup oid (m_objs s) = Some ob -> find_node hid (o_root ob) = Some n0 ->
+  pre_nop T n0 o = Some None ->
+  step T s (MOp oid hid o) =
+    match (if is_root_handle ob hid && nop_no_load o
+           then (o_root ob, m_next s, None) else load_root T s ob) with
+    | (root1, nx1, Some e) => (keep_root s oid ob root1 nx1, MR (Err e) None)
+    | (root1, nx1, None) =>
+        step_body T s oid hid o ob (is_root_handle ob hid && nop_no_load o) root1 nx1
+    end.
+Proof. intros H1 H2 H3. cbn [step]. rewrite H1, H2, H3. reflexivity. Qed.
+
+Lemma step_MOp_early T s oid hid o s' res :
+  step T s (MOp oid hid o) = (s', res) ->
+  (s' = s /\ (res = MBad \/
+              exists ob n0 e, nlookup oid (m_objs s) = Some ob /\ find_node hid (o_root ob) = Some n0
+                              /\ pre_nop T n0 o = Some (Some e) /\ res = MR (Err e) None))
+  \/ (exists ob n0, nlookup oid (m_objs s) = Some ob /\ find_node hid (o_root ob) = Some n0
+                    /\ pre_nop T n0 o = Some None).
+Proof.
+  intros H. cbn [step] in H.
+  destruct (nlookup oid (m_objs s)) as [ob|] eqn:Hob; [|inversion H; auto].
+  destruct (find_node hid (o_root ob)) as [n0|] eqn:Hf; [|inversion H; auto].
+  destruct (pre_nop T n0 o) as [[e|]|] eqn:Hp.
+  - inversion H; subst. left. split; [reflexivity|]. right. exists ob, n0, e. auto.
+  - right. exists ob, n0. auto.
+  - inversion H; auto.
+Qed.
+
+Lemma find_node_root h n : node_id n = Some h -> find_node h n = Some n.
+Proof.
+  destruct n as [v|id c l|id c d]; cbn [node_id]; intros H; try discriminate; inversion H; subst.
+  - rewrite find_node_NL, Nat.eqb_refl. reflexivity.
+  - rewrite find_node_ND, Nat.eqb_refl. reflexivity.
+Qed.
+
+Lemma replace_root h r n : node_id n = Some h -> replace_node h r n = r.
+Proof.
+  destruct n as [v|id c l|id c d]; cbn [node_id]; intros H; try discriminate; inversion H; subst.
+  - rewrite replace_node_NL, Nat.eqb_refl. reflexivity.
+  - rewrite replace_node_ND, Nat.eqb_refl. reflexivity.
+Qed.
+
+Lemma is_root_handle_id ob hid : is_root_handle ob hid = true -> node_id (o_root ob) = Some hid.
+Proof.
+  unfold is_root_handle. destruct (node_id (o_root ob)) as [r|]; [|discriminate].
+  intros H. apply Nat.eqb_eq in H. subst. reflexivity.
+Qed.
+
+Lemma read_not_no_load o : nop_is_read o = true -> nop_no_load o = false.
+Proof. destruct o as [[]|[]]; cbn; intros H; try discriminate; reflexivity. Qed.
+
+Lemma no_load_not_read o : nop_no_load o = true -> nop_is_read o = false.
+Proof. destruct o as [[]|[]]; cbn; intros H; try discriminate; reflexivity. Qed.
+
+Lemma in_nop_read T n o nx r h n2 nx2 :
+  nop_is_read o = true -> in_nop T n o nx = Some ((r, h), n2, nx2) -> n2 = n /\ nx2 = nx.
+Proof.
+  intros Hr H. destruct n as [v|id c l|id c d], o as [lo|dop]; cbn [in_nop] in H; try discriminate.
+  - destruct lo; cbn [nop_is_read lop_is_read] in Hr; try discriminate; cbn [in_lop] in H;
+      inversion H; auto.
+  - destruct dop; cbn [nop_is_read dop_is_read] in Hr; try discriminate; cbn [in_dop] in H;
+      inversion H; auto.
+Qed.
+
+Lemma pre_nop_cls T n o x : pre_nop T n o = Some x -> exists c0, node_cls n = Some c0.
+Proof. destruct n as [v|id c l|id c d]; cbn; intros H; [destruct o; discriminate| |]; eauto. Qed.
+
+Lemma node_cls_lang T b L n c0 :
+  uniform_backend T b L = true -> node_in_backend T b n -> node_cls n = Some c0 ->
+  lang3 (validators_of T c0) = L.
+Proof.
+  intros HU Hn Hc. eapply uniform_lang; [exact HU|]. apply Hn.
+  destruct n as [v|id c l|id c d]; cbn in Hc; try discriminate; inversion Hc; subst; cbn; auto.
+Qed.
+
+(* ---------- M2 ---------- *)
+Theorem mutator_writes_through T s oid hid o s' v h :
+  nop_is_read o = false -> step T s (MOp oid hid o) = (s', MR (Ok v) h) ->
+  exists ob', nlookup oid (m_objs s') = Some ob'
+    /\ nlookup (o_rid ob') (m_res s') = Some (to_base (o_root ob'))
+    /\ m_writes s' = o_rid ob' :: m_writes s.
+Proof.
+  intros Hr H.
+  destruct (step_MOp_early _ _ _ _ _ _ _ H)
+    as [[_ [Hbad|(ob & n0 & e & _ & _ & _ & Hres)]]|(ob & n0 & Hob & Hf & Hp)]; try discriminate.
+  rewrite (step_MOp_eq _ _ _ _ _ _ _ Hob Hf Hp) in H.
+  destruct (if is_root_handle ob hid && nop_no_load o
+            then (o_root ob, m_next s, None) else load_root T s ob) as [[root1 nx1] [e|]];
+    [discriminate|].
+  unfold step_body in H. rewrite Hr in H.
+  destruct (find_node hid root1) as [n1|]; [|discriminate].
+  destruct (in_nop T n1 o nx1) as [[[[r1 h1] n2] nx2]|]; [|discriminate].
+  assert (Hs : s' = save_root s oid ob (replace_node hid n2 root1) nx2).
+  { destruct r1 as [v1|e1].
+    - inversion H; reflexivity.
+    - destruct (is_root_handle ob hid && nop_no_load o); discriminate. }
+  subst s'. exists (set_root ob (replace_node hid n2 root1)).
+  cbn [save_root m_objs m_res m_writes set_root o_rid o_root].
+  rewrite !nlookup_nset_same. auto.
+Qed.
+
+(* ---------- M3 ---------- *)
+Module M3Cex.
+  Definition mkc (k : kind) : cls :=
+    {| c_name := []; c_kind := k; c_backend := 0; c_validators := [VNoDot]; c_attr := false;
+       c_buf := BufNone; c_threading := false; c_protected := [] |}.
+  Definition T : class_table := [mkc KDict; mkc KList].
+  Definition ob : obj := {| o_cls := 0; o_rid := 0; o_root := ND 0 0 [] |}.
+  Definition s : mstate :=
+    {| m_res := [(0, VD [])]; m_writes := []; m_objs := [(0, ob)]; m_next := 1 |}.
+  (* d.update([[".", None]]): a list of pairs contains no mapping key, so it passes every
+     validator, but the mapping it denotes has the forbidden key "." *)
+  Definition arg : val := VL [VL [VS (SStr [46%N]); VS SNull]].
+  Definition o : nop := OD (DUpdate arg).
+  Definition s' : mstate := fst (step T s (MOp 0 0 o)).
+
+  Lemma inv : Inv T s.
+  Proof.
+    intros oid o0 H. destruct oid; cbn in H; [|discriminate]. inversion H; subst o0.
+    constructor; try reflexivity.
+    - cbn. lia.
+    - intros c [<-|[]]. reflexivity.
+    - cbn. constructor; [intros []|constructor].
+    - cbn. intros i [<-|[]]. lia.
+  Qed.
+
+  Lemma resv : res_valid T s.
+  Proof.
+    intros oid o0 c0 H H2. destruct oid; cbn in H; [|discriminate]. inversion H; subst o0.
+    cbn in H2. inversion H2; subst c0. repeat split; reflexivity.
+  Qed.
+
+  Lemma step_eq : step T s (MOp 0 0 o) = (s', MR (Err EInvalidKey) None).
+  Proof. vm_compute. reflexivity. Qed.
+
+  Lemma concl_false :
+    ~ ((s' = s /\ exists e, (Err EInvalidKey : res val) = Err e /\
+          forall v r' new, plain_nop v o = Some (r', new) -> r' = Err e /\ new = v)
+       \/ (exists j p new ob',
+             VEq j (VD []) /\ plain_at p o j = Some (Err EInvalidKey, new)
+             /\ nlookup 0 (m_objs s') = Some ob'
+             /\ (nop_merges o = false -> to_base (o_root ob') = new)
+             /\ VEq (to_base (o_root ob')) new
+             /\ (nop_is_read o = false -> nlookup (o_rid ob) (m_res s') = Some (to_base (o_root ob')))
+             /\ (nop_is_read o = true -> m_res s' = m_res s /\ m_writes s' = m_writes s))).
+  Proof.
+    intros [[Hs _]|(j & p & new & ob' & Hj & Hp & _)].
+    - vm_compute in Hs. discriminate.
+    - inversion Hj as [| |d e H1 H2]; subst.
+      destruct d as [|[k x] d].
+      + destruct p as [|[k|i] p]; vm_compute in Hp; discriminate.
+      + destruct (H1 k x) as [y [Hy _]]; [cbn; rewrite key_eqb_refl; reflexivity|discriminate].
+  Qed.
+End M3Cex.
+
+(* the statement of step_refines_plain as originally given is false *)
+Example step_refines_plain_as_given_is_false :
+  ~ (forall T s oid hid o s' r h ob c,
+      table_ok T = true -> Inv T s -> res_valid T s ->
+      nlookup oid (m_objs s) = Some ob -> nlookup (o_rid ob) (m_res s) = Some c ->
+      args_ok (lang_of T (o_cls ob)) o = true ->
+      (is_root_handle ob hid && nop_no_load o) = false ->
+      step T s (MOp oid hid o) = (s', MR r h) ->
+      (s' = s /\ exists e, r = Err e /\
+         forall v r' new, plain_nop v o = Some (r', new) -> r' = Err e /\ new = v)
+      \/
+      (exists j p new ob',
+         VEq j c /\ plain_at p o j = Some (r, new)
+         /\ nlookup oid (m_objs s') = Some ob'
+         /\ (nop_merges o = false -> to_base (o_root ob') = new)
+         /\ VEq (to_base (o_root ob')) new
+         /\ (nop_is_read o = false -> nlookup (o_rid ob) (m_res s') = Some (to_base (o_root ob')))
+         /\ (nop_is_read o = true -> m_res s' = m_res s /\ m_writes s' = m_writes s))).
+Proof.
+  intros H. apply M3Cex.concl_false.
+  apply (H M3Cex.T M3Cex.s 0 0 M3Cex.o M3Cex.s' (Err EInvalidKey) None M3Cex.ob (VD [])).
+  - vm_compute. reflexivity.
+  - exact M3Cex.inv.
+  - exact M3Cex.resv.
+  - reflexivity.
+  - reflexivity.
+  - vm_compute. reflexivity.
+  - reflexivity.
+  - exact M3Cex.step_eq.
+Qed.
+
+(* CHANGED: one hypothesis added (the line marked ADDED).  As given the statement is false
+   (step_refines_plain_as_given_is_false above): update() also accepts a LIST of [key, value] pairs;
+   such an argument contains no mapping key, so [args_ok] (= every validator accepts the argument)
+   holds even when the mapping it denotes has a forbidden key (e.g. "a.b" under no_dot_in_key).  The
+   library then raises InvalidKeyError after the load, where the built-in dict.update succeeds.  The
+   added hypothesis says that the mapping denoted by the argument of update() is valid; it follows from
+   [args_ok] when the argument is itself a mapping, so it only restricts list-of-pairs arguments. *)
+Theorem step_refines_plain T s oid hid o s' r h ob c :
+  table_ok T = true -> Inv T s -> res_valid T s ->
+  nlookup oid (m_objs s) = Some ob -> nlookup (o_rid ob) (m_res s) = Some c ->
+  args_ok (lang_of T (o_cls ob)) o = true ->
+  (forall v od, o = OD (DUpdate v) -> as_mapping v = Ok od ->
+                val_ok (lang_of T (o_cls ob)) (VD od) = true) ->                    (* ADDED *)
+  (is_root_handle ob hid && nop_no_load o) = false ->
+  step T s (MOp oid hid o) = (s', MR r h) ->
+  (s' = s /\ exists e, r = Err e /\
+     forall v r' new, plain_nop v o = Some (r', new) -> r' = Err e /\ new = v)
+  \/
+  (exists j p new ob',
+     VEq j c /\ plain_at p o j = Some (r, new)
+     /\ nlookup oid (m_objs s') = Some ob'
+     /\ (nop_merges o = false -> to_base (o_root ob') = new)
+     /\ VEq (to_base (o_root ob')) new
+     /\ (nop_is_read o = false -> nlookup (o_rid ob) (m_res s') = Some (to_base (o_root ob')))
+     /\ (nop_is_read o = true -> m_res s' = m_res s /\ m_writes s' = m_writes s)).
+Proof.
+  intros HT HI HR Hob Hc Ha Hup Hskip H.
+  pose proof (HI oid ob Hob) as I.
+  destruct (table_cls_ok T (o_cls ob) HT (oi_cls _ _ _ I)) as [HB [HU Hinb]].
+  destruct (step_MOp_early _ _ _ _ _ _ _ H)
+    as [[-> [Hbad|(ob0 & n0 & e & Hob0 & Hf0 & Hp0 & Hres)]]|(ob0 & n0 & Hob0 & Hf0 & Hp0)];
+    try discriminate.
+  - (* rejected by the argument checks *)
+    rewrite Hob in Hob0. inversion Hob0; subst ob0. inversion Hres; subst r h.
+    left. split; [reflexivity|]. exists e. split; [reflexivity|].
+    destruct (find_node_path _ _ _ (oi_keys _ _ _ I) Hf0) as [p0 [Hat0 _]].
+    pose proof (node_at_in_backend _ _ _ _ _ Hat0 (oi_backend _ _ _ I)) as Hn0.
+    destruct (pre_nop_cls _ _ _ _ Hp0) as [c0 Hc0].
+    eapply pre_nop_reject; [exact Hc0| |exact Ha|exact Hp0].
+    eapply node_cls_lang; eauto.
+  - rewrite Hob in Hob0. inversion Hob0; subst ob0.
+    rewrite (step_MOp_eq _ _ _ _ _ _ _ Hob Hf0 Hp0), Hskip in H.
+    destruct (load_ok T s oid ob c HT HI HR Hob Hc)
+      as [root1 [nx1 [E [L1 [L2 [L3 [L4 [L5 L6]]]]]]]].
+    rewrite E in H. unfold step_body in H.
+    destruct (find_node hid root1) as [n1|] eqn:Hf1;
+      [|destruct (nop_is_read o); discriminate].
+    destruct (in_nop T n1 o nx1) as [[[[r1 h1] n2] nx2]|] eqn:Hin; [|discriminate].
+    destruct (find_node_path _ _ _ L3 Hf1) as [p [Hat Hid]].
+    pose proof (node_at_in_backend _ _ _ _ _ Hat L2) as Hn1.
+    assert (Hku1 : node_keys_unique n1 = true) by (apply (node_at_sub _ _ _ Hat); exact L3).
+    destruct (in_nop_refines T _ _ n1 o nx1 r1 h1 n2 nx2 HB HU Hn1 Hku1 Ha
+                (pre_nop_pass _ _ _ Hp0) Hup Hin) as [c' [Hpl [Hve Hex]]].
+    pose proof (replace_node_put hid n2 p root1 n1 Hat Hid L5) as Hput.
+    right. exists (to_base root1), p, (put_at p (to_base root1) c'),
+             (set_root ob (replace_node hid n2 root1)).
+    assert (Hpa : plain_at p o (to_base root1) = Some (r1, put_at p (to_base root1) c')).
+    { eapply plain_at_put; [|exact Hpl]. apply node_at_val_at; exact Hat. }
+    destruct (nop_is_read o) eqn:Hrd.
+    + inversion H; subst s' r h. cbn [keep_root m_objs m_res m_writes set_root o_root].
+      split; [exact L1|]. split; [exact Hpa|]. split; [apply nlookup_nset_same|].
+      split; [intros Hm; rewrite Hput, (Hex Hm); reflexivity|].
+      split; [rewrite Hput; apply VEq_put; exact Hve|].
+      split; [discriminate|auto].
+    + assert (H' : (save_root s oid ob (replace_node hid n2 root1) nx2, MR r1 h1) = (s', MR r h))
+        by (destruct r1; exact H).
+      clear H. inversion H'; subst s' r h.
+      cbn [save_root m_objs m_res m_writes set_root o_root].
+      split; [exact L1|]. split; [exact Hpa|]. split; [apply nlookup_nset_same|].
+      split; [intros Hm; rewrite Hput, (Hex Hm); reflexivity|].
+      split; [rewrite Hput; apply VEq_put; exact Hve|].
+      split; [intros _; apply nlookup_nset_same|discriminate].
+Qed.
+
+(* ---------- M4 ---------- *)
+Theorem root_clear_reset T s oid hid o s' r h ob :
+  table_ok T = true -> Inv T s -> nlookup oid (m_objs s) = Some ob ->
+  is_root_handle ob hid = true -> nop_no_load o = true -> args_ok (lang_of T (o_cls ob)) o = true ->
+  step T s (MOp oid hid o) = (s', MR r h) ->
+  (exists e, r = Err e /\ s' = s)
+  \/ (r = Ok vnone /\ exists ob' new, nlookup oid (m_objs s') = Some ob'
+        /\ nlookup (o_rid ob) (m_res s') = Some (to_base (o_root ob'))
+        /\ VEq (to_base (o_root ob')) new
+        /\ match o with
+           | OL LClear => new = VL [] | OD DClear => new = VD []
+           | OL (LReset v) | OD (DReset v) => new = v
+           | _ => False end).
+Proof.
+  intros HT HI Hob Hroot Hnl Ha H.
+  pose proof (HI oid ob Hob) as I.
+  destruct (table_cls_ok T (o_cls ob) HT (oi_cls _ _ _ I)) as [HB [HU Hinb]].
+  pose proof (is_root_handle_id _ _ Hroot) as Hid.
+  pose proof (find_node_root _ _ Hid) as Hfr.
+  destruct (step_MOp_early _ _ _ _ _ _ _ H)
+    as [[-> [Hbad|(ob0 & n0 & e & Hob0 & Hf0 & Hp0 & Hres)]]|(ob0 & n0 & Hob0 & Hf0 & Hp0)];
+    try discriminate.
+  - inversion Hres; subst. left. exists e. auto.
+  - rewrite Hob in Hob0. inversion Hob0; subst ob0. rewrite Hfr in Hf0. inversion Hf0; subst n0.
+    rewrite (step_MOp_eq _ _ _ _ _ _ _ Hob Hfr Hp0), Hroot, Hnl in H. cbn [andb] in H.
+    unfold step_body in H. rewrite Hfr, (no_load_not_read _ Hnl) in H.
+    destruct (in_nop T (o_root ob) o (m_next s)) as [[[[r1 h1] n2] nx2]|] eqn:Hi; [|discriminate].
+    rewrite (replace_root _ _ _ Hid) in H.
+    assert (Hup : update_arg_ok (lang_of T (o_cls ob)) o).
+    { intros v od Eo _. subst o. discriminate. }
+    destruct (in_nop_refines T _ _ (o_root ob) o (m_next s) r1 h1 n2 nx2 HB HU
+                (oi_backend _ _ _ I) (oi_keys _ _ _ I) Ha (pre_nop_pass _ _ _ Hp0) Hup Hi)
+      as [c' [Hpl [Hve _]]].
+    pose proof (pre_nop_pass _ _ _ Hp0) as Hrk.
+    assert (Hr1 : r1 = Ok vnone /\ match o with
+                                   | OL LClear => c' = VL [] | OD DClear => c' = VD []
+                                   | OL (LReset v) | OD (DReset v) => c' = v
+                                   | _ => False end).
+    { destruct (to_base (o_root ob)) as [sv|lv|dv], o as [lo|dop]; cbn [plain_nop] in Hpl;
+        try discriminate.
+      - destruct lo; try discriminate Hnl.
+        + cbn [plain_lop] in Hpl. inversion Hpl; auto.
+        + cbn [reset_kind_ok] in Hrk. destruct v; try discriminate Hrk.
+          cbn [plain_lop] in Hpl. inversion Hpl; auto.
+      - destruct dop; try discriminate Hnl.
+        + cbn [plain_dop] in Hpl. inversion Hpl; auto.
+        + cbn [reset_kind_ok] in Hrk. destruct v; try discriminate Hrk.
+          cbn [plain_dop] in Hpl. inversion Hpl; auto. }
+    destruct Hr1 as [-> Hnew]. inversion H; subst s' r h.
+    right. split; [reflexivity|]. exists (set_root ob n2), c'.
+    cbn [save_root m_objs m_res m_writes set_root o_root].
+    rewrite !nlookup_nset_same. auto.
+Qed.
+
+(* ---------- M5 ---------- *)
+Theorem read_keeps_handles T s oid hid o s' res ob c :
+  table_ok T = true -> Inv T s -> res_valid T s ->
+  nlookup oid (m_objs s) = Some ob -> nlookup (o_rid ob) (m_res s) = Some c ->
+  nop_is_read o = true -> step T s (MOp oid hid o) = (s', res) ->
+  forall p m, node_at p (o_root ob) = Some m -> same_kinds_along p (o_root ob) c ->
+  exists ob' m', nlookup oid (m_objs s') = Some ob' /\ node_at p (o_root ob') = Some m' /\ node_id m' = node_id m.
+Proof.
+  intros HT HI HR Hob Hc Hrd H p m Hat Hsk.
+  destruct (step_MOp_early _ _ _ _ _ _ _ H) as [[-> _]|(ob0 & n0 & Hob0 & Hf0 & Hp0)].
+  - exists ob, m. auto.
+  - rewrite Hob in Hob0. inversion Hob0; subst ob0.
+    rewrite (step_MOp_eq _ _ _ _ _ _ _ Hob Hf0 Hp0), (read_not_no_load _ Hrd), andb_false_r in H.
+    destruct (load_ok T s oid ob c HT HI HR Hob Hc)
+      as [root1 [nx1 [E [L1 [L2 [L3 [L4 [L5 L6]]]]]]]].
+    rewrite E in H. unfold step_body in H. rewrite Hrd in H.
+    destruct (L6 p m Hat Hsk) as [m' [M1 M2]].
+    destruct (find_node hid root1) as [n1|] eqn:Hf1.
+    + destruct (in_nop T n1 o nx1) as [[[[r1 h1] n2] nx2]|] eqn:Hin.
+      * destruct (in_nop_read _ _ _ _ _ _ _ _ Hrd Hin) as [-> ->].
+        rewrite (replace_same _ _ _ L5 Hf1) in H. inversion H; subst s' res.
+        exists (set_root ob root1), m'. cbn [keep_root m_objs set_root o_root].
+        rewrite nlookup_nset_same. auto.
+      * inversion H; subst. exists ob, m. auto.
+    + inversion H; subst s' res.
+      exists (set_root ob root1), m'. cbn [keep_root m_objs set_root o_root].
+      rewrite nlookup_nset_same. auto.
+Qed.
+
+(* ---------- M6 ---------- *)
+Theorem touch_is_noop T s oid mut s' res ob c :
+  table_ok T = true -> Inv T s -> res_valid T s ->
+  nlookup oid (m_objs s) = Some ob -> nlookup (o_rid ob) (m_res s) = Some c ->
+  step T s (MTouch oid mut) = (s', res) ->
+  exists c', nlookup (o_rid ob) (m_res s') = Some c' /\ VEq c' c
+    /\ (forall rid, rid <> o_rid ob -> nlookup rid (m_res s') = nlookup rid (m_res s)).
+Proof.
+  intros HT HI HR Hob Hc H. cbn [step] in H. rewrite Hob in H.
+  destruct (load_ok T s oid ob c HT HI HR Hob Hc) as [root1 [nx1 [E [L1 _]]]].
+  rewrite E in H. destruct mut; inversion H; subst s' res; cbn [save_root keep_root m_res].
+  - exists (to_base root1). rewrite nlookup_nset_same. split; [reflexivity|]. split; [exact L1|].
+    intros rid Hne. apply nlookup_nset_other; exact Hne.
+  - exists c. split; [exact Hc|]. split; [apply VEq_refl|reflexivity].
+Qed.
+
+Print Assumptions upd_ids_r.
+Print Assumptions mutator_writes_through.
+Print Assumptions in_lop_refines_plain.
+Print Assumptions in_dop_refines_plain.
+Print Assumptions step_refines_plain_as_given_is_false.
+Print Assumptions step_refines_plain.
+Print Assumptions root_clear_reset.
+Print Assumptions read_keeps_handles.
+Print Assumptions touch_is_noop.
